@@ -104,6 +104,169 @@ def failCvt (_e : Var) (fallback : Nat) : Stmt :=
 /-- `return nil, convertResponseError(err)` -/
 def failCvt' (_e : Var) : Stmt := .call "convertResponseError" ["cvt", "cvt.unknown"] [] ;; .set "out" (.v "cvt") ;; .ret
 
+
+/- indexes of the anchored functions in the table `progs` (checked by `fnIndex_ok`) -/
+namespace Fn
+def APIServer_RunGateway_api_server : Nat := 0
+def APIServer_Start_api_server : Nat := 1
+def APIServer_Stop_api_server : Nat := 2
+def NewAPIServer_api_server : Nat := 3
+def generateRPCKeyPair_api_server : Nat := 4
+def openRPCKeyPair_api_server : Nat := 5
+def AutoCreateTransaction : Nat := 6
+def CheckPoolPkCoinbase : Nat := 7
+def CheckTargetBinding : Nat := 8
+def CreateBindingTransaction_api : Nat := 9
+def CreatePoolPkCoinbaseTransaction : Nat := 10
+def CreateRawTransaction_api : Nat := 11
+def CreateStakingTransaction_api : Nat := 12
+def DecodeRawTransaction : Nat := 13
+def GetBindingHistory_api : Nat := 14
+def GetNetworkBinding : Nat := 15
+def GetRawTransaction : Nat := 16
+def GetStakingHistory_api : Nat := 17
+def GetTransactionFee : Nat := 18
+def GetTxStatus : Nat := 19
+def SendRawTransaction : Nat := 20
+def TxHistory : Nat := 21
+def buildDecodeRawTxResponse : Nat := 22
+def createTxRawResult : Nat := 23
+def createVinList : Nat := 24
+def getStatus : Nat := 25
+def createVoutList : Nat := 26
+def getEstimateStakingAddress : Nat := 27
+def messageToHex_api : Nat := 28
+def mockBindingTarget : Nat := 29
+def witnessToHex : Nat := 30
+def AmountToString : Nat := 31
+def StringToAmount : Nat := 32
+def checkAddressLen : Nat := 33
+def checkFormatAmount : Nat := 34
+def checkLocktime : Nat := 35
+def checkMnemonicLen : Nat := 36
+def checkNotEmpty : Nat := 37
+def checkParseAmount : Nat := 38
+def checkPassLen : Nat := 39
+def checkRemarksLen : Nat := 40
+def checkTransactionIdLen : Nat := 41
+def checkTxFeeLimit : Nat := 42
+def checkWalletIdLen : Nat := 43
+def checkWitnessAddress : Nat := 44
+def convertResponseError : Nat := 45
+def extractAddressInfos : Nat := 46
+def isEmpty : Nat := 47
+def parseBindingTarget : Nat := 48
+def CreateAddress : Nat := 49
+def CreateWallet_api : Nat := 50
+def ExportWallet_api : Nat := 51
+def GetAddressBalance : Nat := 52
+def GetAddresses_api : Nat := 53
+def GetClientStatus : Nat := 54
+def GetUtxo_api : Nat := 55
+def GetWalletBalance : Nat := 56
+def GetWalletMnemonic : Nat := 57
+def ImportMnemonic : Nat := 58
+def ImportWallet_api : Nat := 59
+def QuitClient : Nat := 60
+def RemoveWallet_api : Nat := 61
+def SignRawTransaction : Nat := 62
+def UseWallet_api : Nat := 63
+def ValidateAddress : Nat := 64
+def Wallets_api : Nat := 65
+def decodeHexStr : Nat := 66
+def AmountToString_wm : Nat := 67
+def PayToWitnessV0Address : Nat := 68
+def addTxIn : Nat := 69
+def autoConstructTxInAndChangeTxOut : Nat := 70
+def existsMsgTx : Nat := 71
+def existsOutPoint : Nat := 72
+def existsUnminedTx : Nat := 73
+def prepareFromAddresses : Nat := 74
+def amountToTxOut : Nat := 75
+def maybeSubtractFeeFromAmounts : Nat := 76
+def NewNtfnsHandler : Nat := 77
+def IsWorkerBusy : Nat := 78
+def OnBlockConnected : Nat := 79
+def OnImportWallet : Nat := 80
+def OnRemoveWallet : Nat := 81
+def OnTransactionReceived : Nat := 82
+def RemoveMempoolTx : Nat := 83
+def Start : Nat := 84
+def Stop : Nat := 85
+def asyncImport : Nat := 86
+def asyncRemove : Nat := 87
+def disconnectBlock : Nat := 88
+def filterBlock : Nat := 89
+def filterTx : Nat := 90
+def filterTxForImporting : Nat := 91
+def getBlock : Nat := 92
+def getReadyWallets : Nat := 93
+def initTaskChan : Nat := 94
+def onRelevantBlockConnected : Nat := 95
+def onRelevantTx : Nat := 96
+def proccessReceivedTx : Nat := 97
+def processConnectedBlock : Nat := 98
+def reorg : Nat := 99
+def resume : Nat := 100
+def suspend : Nat := 101
+def Recover : Nat := 102
+def handle : Nat := 103
+def worker : Nat := 104
+def EstimateBindingTxFee : Nat := 105
+def EstimateManualTxFee : Nat := 106
+def EstimateStakingTxFee : Nat := 107
+def EstimateTxFee : Nat := 108
+def GetTxHistory : Nat := 109
+def SignHash : Nat := 110
+def constructTxIn : Nat := 111
+def constructTxOut : Nat := 112
+def estimateSignedSize : Nat := 113
+def findEligibleUtxos : Nat := 114
+def getUtxos : Nat := 115
+def getUtxosExcludeBindingAndStaking : Nat := 116
+def signWitnessTx : Nat := 117
+def constructStakingTxOut : Nat := 118
+def messageToHex : Nat := 119
+def optOutputs : Nat := 120
+def selectRelatedTx : Nat := 121
+def NewWalletManager : Nat := 122
+def AddressBalance : Nat := 123
+def AutoCreateRawTransaction : Nat := 124
+def ChainIndexerSyncedHeight : Nat := 125
+def ChangePrivPassphrase : Nat := 126
+def CheckReady : Nat := 127
+def ClearUsedUTXOMark : Nat := 128
+def CloseDB : Nat := 129
+def CountAll : Nat := 130
+def CreateBindingTransaction : Nat := 131
+def CreateRawTransaction : Nat := 132
+def CreateStakingTransaction : Nat := 133
+def CreateWallet : Nat := 134
+def CurrentWallet : Nat := 135
+def ExportWallet : Nat := 136
+def GetAddresses : Nat := 137
+def GetAllAddressesWithPubkey : Nat := 138
+def GetBindingHistory : Nat := 139
+def GetMnemonic : Nat := 140
+def GetStakingHistory : Nat := 141
+def GetUtxo : Nat := 142
+def ImportWallet : Nat := 143
+def ImportWalletWithMnemonic : Nat := 144
+def IsAddressInCurrent : Nat := 145
+def MarkUsedUTXO : Nat := 146
+def NewAddress : Nat := 147
+def RemoveWallet : Nat := 148
+def SignRawTx : Nat := 149
+def Start_wm : Nat := 150
+def Stop_wm : Nat := 151
+def SyncedTo : Nat := 152
+def UTXOUsed : Nat := 153
+def UseWallet : Nat := 154
+def WalletBalance : Nat := 155
+def Wallets : Nat := 156
+def checkInit : Nat := 157
+end Fn
+
 -- ==================================================================== api/util.go
 
 /-- AmountToString (api/util.go and masswallet/common.go: textually equal) -/
@@ -167,15 +330,15 @@ def f_checkLocktime : Stmt :=
 def f_isEmpty : Stmt := flag "isEmpty(obj)" "empty"
 
 def f_checkNotEmpty : Stmt :=
-  .invoke "api/util.go:isEmpty" ;;
+  .invoke Fn.isEmpty ;;
   .ite (nz "empty") (.set "cne.err" (.k ApiErr.invalidParameter)) (.set "cne.err" (.k 0))
 
 def f_checkParseAmount : Stmt :=
-  .invoke "api/util.go:StringToAmount" ;;
+  .invoke Fn.StringToAmount ;;
   .ite (nz "sta.err") (.set "cpa.err" (.k ApiErr.invalidAmount)) (.set "cpa.err" (.k 0))
 
 def f_checkFormatAmount : Stmt :=
-  .invoke "api/util.go:AmountToString" ;;
+  .invoke Fn.AmountToString ;;
   .ite (nz "ats.err") (.set "cfa.err" (.k ApiErr.invalidAmount)) (.set "cfa.err" (.k 0))
 
 def f_checkWitnessAddress : Stmt :=
@@ -202,8 +365,8 @@ def f_parseBindingTarget : Stmt :=
 
 def f_checkTxFeeLimit : Stmt :=
   .set "amt.sel" (.k 3) ;;
-  .invoke "api/util.go:checkParseAmount" ;;
-  .ite (nz "cpa.err") (.set "amt.sel" (.k 4) ;; .invoke "api/util.go:checkParseAmount") .skip ;;
+  .invoke Fn.checkParseAmount ;;
+  .ite (nz "cpa.err") (.set "amt.sel" (.k 4) ;; .invoke Fn.checkParseAmount) .skip ;;
   flag "max.Cmp(fee) < 0" "fee.big" ;;
   .ite (nz "fee.big") (.set "ctf.err" (.k ApiErr.bigTransactionFee)) (.set "ctf.err" (.k 0))
 
@@ -274,7 +437,7 @@ def f_extractAddressInfos : Stmt :=
 -- ==================================================================== api/wallet_service.go
 
 def f_GetClientStatus : Stmt :=
-  .invoke "masswallet/wallet.go:WalletManager.SyncedTo" ;;
+  .invoke Fn.SyncedTo ;;
   failIf (nz "st.err") ApiErr.queryDataFailed ;;
   mark "node" ;;
   -- a live node: SyncManager / Blockchain / Switch are the node's own non-nil services
@@ -307,28 +470,28 @@ def f_decodeHexStr : Stmt :=
 def f_SignRawTransaction : Stmt :=
   flag "in.RawTx: len == 0" "srt.empty" ;;
   failIf (nz "srt.empty") ApiErr.invalidTxHex ;;
-  .invoke "api/wallet_service.go:decodeHexStr" ;;
+  .invoke Fn.decodeHexStr ;;
   failIf (nz "dh.err") ApiErr.invalidTxHex ;;
   .call "tx.SetBytes" ["srt.err", "tx.TxIn", "tx.TxOut"] [] ;;
   .ite (nz "srt.err") (Dt "err .Error" "srt.err" ;; fail ApiErr.invalidTxHex) .skip ;;
-  .invoke "api/util.go:checkPassLen" ;;
-  ifR (nz "cpl.err") (.invoke "masswallet/wallet.go:WalletManager.ClearUsedUTXOMark" ;; .set "out" (.v "cpl.err")) ;;
-  .invoke "masswallet/wallet.go:WalletManager.SignRawTx" ;;
-  ifR (nz "err") (.invoke "masswallet/wallet.go:WalletManager.ClearUsedUTXOMark" ;; failCvt' "err") ;;
+  .invoke Fn.checkPassLen ;;
+  ifR (nz "cpl.err") (.invoke Fn.ClearUsedUTXOMark ;; .set "out" (.v "cpl.err")) ;;
+  .invoke Fn.SignRawTx ;;
+  ifR (nz "err") (.invoke Fn.ClearUsedUTXOMark ;; failCvt' "err") ;;
   ok
 
 def f_CreateAddress : Stmt :=
   CV "uint16(in.Version)" ;;
   flag "massutil.IsValidAddressClass(uint16(in.Version))" "ca.valid" ;;
   failIf (isz "ca.valid") ApiErr.invalidVersion ;;
-  .invoke "masswallet/wallet.go:WalletManager.GetAddresses" ;;
+  .invoke Fn.GetAddresses ;;
   failIf (nz "err") ApiErr.abnormalData ;;
   .loop "ca.i" "result" [] (
     .call "range ads" ["ad"] (always [.nz "ad"]) ;;
     D "ad" "Used") ;;
   flag "unused address limit reached" "ca.limit" ;;
   failIf (nz "ca.limit") ApiErr.unusedAddressLimit ;;
-  .invoke "masswallet/wallet.go:WalletManager.NewAddress" ;;
+  .invoke Fn.NewAddress ;;
   ifR (nz "err") (failCvt "err" ApiErr.abnormalData) ;;
   ok
 
@@ -336,7 +499,7 @@ def f_GetAddresses_api : Stmt :=
   CV "uint16(in.Version)" ;;
   flag "massutil.IsValidAddressClass(uint16(in.Version))" "ca.valid" ;;
   failIf (isz "ca.valid") ApiErr.invalidVersion ;;
-  .invoke "masswallet/wallet.go:WalletManager.GetAddresses" ;;
+  .invoke Fn.GetAddresses ;;
   ifR (nz "err") (failCvt "err" ApiErr.queryDataFailed) ;;
   .loop "ga.i" "result" [] (
     .call "range ads" ["ad"] (always [.nz "ad"]) ;;
@@ -344,9 +507,9 @@ def f_GetAddresses_api : Stmt :=
   ok
 
 def f_ValidateAddress : Stmt :=
-  .invoke "api/util.go:checkAddressLen" ;;
+  .invoke Fn.checkAddressLen ;;
   ifR (nz "cal.err") (.set "out" (.v "cal.err")) ;;
-  .invoke "masswallet/wallet.go:WalletManager.IsAddressInCurrent" ;;
+  .invoke Fn.IsAddressInCurrent ;;
   ifR (nz "err") (failCvt "err" ApiErr.invalidAddress) ;;
   -- massutil.IsWitnessV0Address / IsWitnessStakingAddress answer false for a nil interface
   .call "massutil.IsWitnessV0Address(witAddr)" ["va.v0"] [⟨[.nz "va.v0"], [.nz "witAddr"]⟩] ;;
@@ -360,14 +523,14 @@ def f_GetWalletBalance : Stmt :=
   flag "in.RequiredConfirmations < 0" "gwb.neg" ;;
   failIf (nz "gwb.neg") ApiErr.invalidParameter ;;
   CV "uint32(in.RequiredConfirmations)" ;;
-  .invoke "masswallet/wallet.go:WalletManager.WalletBalance" ;;
+  .invoke Fn.WalletBalance ;;
   ifR (nz "err") (failCvt "err" ApiErr.queryDataFailed) ;;
   .call "WalletBalance result" ["bal"] (always [.nz "bal"]) ;;
   D "bal" "Total" ;;
-  .invoke "api/util.go:checkFormatAmount" ;; ifR (nz "cfa.err") (.set "out" (.v "cfa.err")) ;;
-  .invoke "api/util.go:checkFormatAmount" ;; ifR (nz "cfa.err") (.set "out" (.v "cfa.err")) ;;
-  .invoke "api/util.go:checkFormatAmount" ;; ifR (nz "cfa.err") (.set "out" (.v "cfa.err")) ;;
-  .invoke "api/util.go:checkFormatAmount" ;; ifR (nz "cfa.err") (.set "out" (.v "cfa.err")) ;;
+  .invoke Fn.checkFormatAmount ;; ifR (nz "cfa.err") (.set "out" (.v "cfa.err")) ;;
+  .invoke Fn.checkFormatAmount ;; ifR (nz "cfa.err") (.set "out" (.v "cfa.err")) ;;
+  .invoke Fn.checkFormatAmount ;; ifR (nz "cfa.err") (.set "out" (.v "cfa.err")) ;;
+  .invoke Fn.checkFormatAmount ;; ifR (nz "cfa.err") (.set "out" (.v "cfa.err")) ;;
   ok
 
 def f_GetAddressBalance : Stmt :=
@@ -375,31 +538,31 @@ def f_GetAddressBalance : Stmt :=
   failIf (nz "gwb.neg") ApiErr.invalidParameter ;;
   .call "len(in.Addresses)" ["in.Addresses"] [] ;;
   .loop "gab.i" "in.Addresses" [] (
-    .invoke "api/util.go:checkAddressLen" ;;
+    .invoke Fn.checkAddressLen ;;
     ifR (nz "cal.err") (.set "out" (.v "cal.err"))) ;;
   CV "uint32(in.RequiredConfirmations)" ;;
-  .invoke "masswallet/wallet.go:WalletManager.AddressBalance" ;;
+  .invoke Fn.AddressBalance ;;
   ifR (nz "err") (failCvt "err" ApiErr.queryDataFailed) ;;
   .loop "gab.j" "ret" [] (
     .call "range bals" ["bal"] (always [.nz "bal"]) ;;
     D "bal" "Total" ;;
-    .invoke "api/util.go:checkFormatAmount" ;; ifR (nz "cfa.err") (.set "out" (.v "cfa.err")) ;;
-    .invoke "api/util.go:checkFormatAmount" ;; ifR (nz "cfa.err") (.set "out" (.v "cfa.err")) ;;
-    .invoke "api/util.go:checkFormatAmount" ;; ifR (nz "cfa.err") (.set "out" (.v "cfa.err")) ;;
-    .invoke "api/util.go:checkFormatAmount" ;; ifR (nz "cfa.err") (.set "out" (.v "cfa.err"))) ;;
+    .invoke Fn.checkFormatAmount ;; ifR (nz "cfa.err") (.set "out" (.v "cfa.err")) ;;
+    .invoke Fn.checkFormatAmount ;; ifR (nz "cfa.err") (.set "out" (.v "cfa.err")) ;;
+    .invoke Fn.checkFormatAmount ;; ifR (nz "cfa.err") (.set "out" (.v "cfa.err")) ;;
+    .invoke Fn.checkFormatAmount ;; ifR (nz "cfa.err") (.set "out" (.v "cfa.err"))) ;;
   ok
 
 def f_UseWallet_api : Stmt :=
-  .invoke "api/util.go:checkWalletIdLen" ;;
+  .invoke Fn.checkWalletIdLen ;;
   ifR (nz "cwl.err") (.set "out" (.v "cwl.err")) ;;
-  .invoke "masswallet/wallet.go:WalletManager.UseWallet" ;;
+  .invoke Fn.UseWallet ;;
   ifR (nz "err") (failCvt "err" ApiErr.abnormalData) ;;
   D "info" "TotalBalance" ;;
-  .invoke "api/util.go:checkFormatAmount" ;; ifR (nz "cfa.err") (.set "out" (.v "cfa.err")) ;;
+  .invoke Fn.checkFormatAmount ;; ifR (nz "cfa.err") (.set "out" (.v "cfa.err")) ;;
   ok
 
 def f_Wallets_api : Stmt :=
-  .invoke "masswallet/wallet.go:WalletManager.Wallets" ;;
+  .invoke Fn.Wallets ;;
   ifR (nz "err") (failCvt "err" ApiErr.queryDataFailed) ;;
   .loop "w.i" "ret" [] (
     .call "range summaries" ["summary", "summary.Status"] (always [.nz "summary", .nz "summary.Status"]) ;;
@@ -410,9 +573,9 @@ def f_Wallets_api : Stmt :=
 def f_GetUtxo_api : Stmt :=
   .call "len(in.Addresses)" ["in.Addresses"] [] ;;
   .loop "gu.i" "in.Addresses" [] (
-    .invoke "api/util.go:checkAddressLen" ;;
+    .invoke Fn.checkAddressLen ;;
     ifR (nz "cal.err") (.set "out" (.v "cal.err"))) ;;
-  .invoke "masswallet/wallet.go:WalletManager.GetUtxo" ;;
+  .invoke Fn.GetUtxo ;;
   ifR (nz "err") (failCvt "err" ApiErr.queryDataFailed) ;;
   .call "len(m)" ["gu.m"] [] ;;
   .loop "gu.k" "gu.m" [] (
@@ -420,61 +583,61 @@ def f_GetUtxo_api : Stmt :=
     .loop "gu.l" "gu.v" [] (
       .call "range v" ["item"] (always [.nz "item"]) ;;
       D "item" "Amount" ;;
-      .invoke "api/util.go:checkFormatAmount" ;; ifR (nz "cfa.err") (.set "out" (.v "cfa.err")))) ;;
+      .invoke Fn.checkFormatAmount ;; ifR (nz "cfa.err") (.set "out" (.v "cfa.err")))) ;;
   ok
 
 def f_ImportWallet_api : Stmt :=
-  .invoke "api/util.go:checkPassLen" ;;
+  .invoke Fn.checkPassLen ;;
   ifR (nz "cpl.err") (.set "out" (.v "cpl.err")) ;;
-  .invoke "masswallet/wallet.go:WalletManager.ImportWallet" ;;
+  .invoke Fn.ImportWallet ;;
   ifR (nz "err") (failCvt "err" ApiErr.abnormalData) ;;
   D "ws" "WalletID" ;;
   ok
 
 def f_ImportMnemonic : Stmt :=
-  .invoke "api/util.go:checkMnemonicLen" ;;
+  .invoke Fn.checkMnemonicLen ;;
   ifR (nz "cml.err") (.set "out" (.v "cml.err")) ;;
-  .invoke "api/util.go:checkRemarksLen" ;;
-  .invoke "api/util.go:checkPassLen" ;;
+  .invoke Fn.checkRemarksLen ;;
+  .invoke Fn.checkPassLen ;;
   ifR (nz "cpl.err") (.set "out" (.v "cpl.err")) ;;
-  .invoke "masswallet/wallet.go:WalletManager.ImportWalletWithMnemonic" ;;
+  .invoke Fn.ImportWalletWithMnemonic ;;
   ifR (nz "err") (failCvt "err" ApiErr.abnormalData) ;;
   D "ws" "WalletID" ;;
   ok
 
 def f_CreateWallet_api : Stmt :=
-  .invoke "api/util.go:checkPassLen" ;;
+  .invoke Fn.checkPassLen ;;
   ifR (nz "cpl.err") (.set "out" (.v "cpl.err")) ;;
-  .invoke "api/util.go:checkRemarksLen" ;;
+  .invoke Fn.checkRemarksLen ;;
   CV "int(in.BitSize)" ;;
-  .invoke "masswallet/wallet.go:WalletManager.CreateWallet" ;;
+  .invoke Fn.CreateWallet ;;
   ifR (nz "err") (failCvt "err" ApiErr.abnormalData) ;;
   ok
 
 def f_ExportWallet_api : Stmt :=
-  .invoke "api/util.go:checkWalletIdLen" ;;
+  .invoke Fn.checkWalletIdLen ;;
   ifR (nz "cwl.err") (.set "out" (.v "cwl.err")) ;;
-  .invoke "api/util.go:checkPassLen" ;;
+  .invoke Fn.checkPassLen ;;
   ifR (nz "cpl.err") (.set "out" (.v "cpl.err")) ;;
-  .invoke "masswallet/wallet.go:WalletManager.ExportWallet" ;;
+  .invoke Fn.ExportWallet ;;
   ifR (nz "err") (failCvt "err" ApiErr.queryDataFailed) ;;
   ok
 
 def f_RemoveWallet_api : Stmt :=
-  .invoke "api/util.go:checkWalletIdLen" ;;
+  .invoke Fn.checkWalletIdLen ;;
   ifR (nz "cwl.err") (.set "out" (.v "cwl.err")) ;;
-  .invoke "api/util.go:checkPassLen" ;;
+  .invoke Fn.checkPassLen ;;
   ifR (nz "cpl.err") (.set "out" (.v "cpl.err")) ;;
-  .invoke "masswallet/wallet.go:WalletManager.RemoveWallet" ;;
+  .invoke Fn.RemoveWallet ;;
   ifR (nz "err") (failCvt "err" ApiErr.abnormalData) ;;
   ok
 
 def f_GetWalletMnemonic : Stmt :=
-  .invoke "api/util.go:checkWalletIdLen" ;;
+  .invoke Fn.checkWalletIdLen ;;
   ifR (nz "cwl.err") (.set "out" (.v "cwl.err")) ;;
-  .invoke "api/util.go:checkPassLen" ;;
+  .invoke Fn.checkPassLen ;;
   ifR (nz "cpl.err") (.set "out" (.v "cpl.err")) ;;
-  .invoke "masswallet/wallet.go:WalletManager.GetMnemonic" ;;
+  .invoke Fn.GetMnemonic ;;
   ifR (nz "err") (failCvt "err" ApiErr.queryDataFailed) ;;
   ok
 
@@ -491,9 +654,9 @@ def f_createVoutList : Stmt :=
   .loop "cvo.i" "mtx.TxOut" [] (
     .call "txscript.DisasmString" ["cvo.err"] [] ;;
     ifR (nz "cvo.err") .skip ;;
-    .invoke "api/util.go:extractAddressInfos" ;;
+    .invoke Fn.extractAddressInfos ;;
     ifR (nz "eai.err") (.set "cvo.err" (.v "eai.err")) ;;
-    .invoke "api/util.go:AmountToString" ;;
+    .invoke Fn.AmountToString ;;
     ifR (nz "ats.err") (.set "cvo.err" (.v "ats.err"))) ;;
   .set "cvo.err" (.k 0)
 
@@ -525,9 +688,9 @@ def f_createVinList : Stmt :=
       IX "prevTx.TxOut[txIn.PreviousOutPoint.Index]" "vout" "prevTx.TxOut" ;;
       .call "prevTx.TxOut[i]" ["prevVout"] (always [.nz "prevVout"]) ;;
       D "prevVout" "PkScript" ;;
-      .invoke "api/util.go:extractAddressInfos" ;;
+      .invoke Fn.extractAddressInfos ;;
       ifR (nz "eai.err") (.set "cvi.err" (.v "eai.err")) ;;
-      .invoke "api/util.go:AmountToString" ;;
+      .invoke Fn.AmountToString ;;
       ifR (nz "ats.err") (.set "cvi.err" (.v "ats.err")))) ;;
   .set "cvi.err" (.k 0)
 
@@ -543,15 +706,15 @@ def f_getStatus : Stmt :=
   .set "gs.err" (.k 0)
 
 def f_createTxRawResult : Stmt :=
-  .invoke "api/tx_service.go:createVoutList" ;;
+  .invoke Fn.createVoutList ;;
   ifR (nz "cvo.err") (.set "ctr.err" (.v "cvo.err")) ;;
-  .invoke "api/tx_service.go:APIServer.createVinList" ;;
+  .invoke Fn.createVinList ;;
   ifR (nz "cvi.err") (.set "ctr.err" (.v "cvi.err")) ;;
   flag "isCoinbase" "ctr.cb" ;;
-  .ite (isz "ctr.cb") (.invoke "api/util.go:AmountToString" ;; ifR (nz "ats.err") (.set "ctr.err" (.v "ats.err"))) .skip ;;
+  .ite (isz "ctr.cb") (.invoke Fn.AmountToString ;; ifR (nz "ats.err") (.set "ctr.err" (.v "ats.err"))) .skip ;;
   .call "mtx.Bytes" ["ctr.err"] [] ;;
   ifR (nz "ctr.err") .skip ;;
-  .invoke "api/tx_service.go:APIServer.getStatus" ;;
+  .invoke Fn.getStatus ;;
   ifR (nz "gs.err") (.set "ctr.err" (.v "gs.err")) ;;
   .set "ctr.err" (.k 0)
 
@@ -561,29 +724,29 @@ def f_buildDecodeRawTxResponse : Stmt :=
   -- (*TransactionPayload).String returns "" for a nil receiver: the call cannot fail
   .site "deref" "blockchain.DecodePayload(mtx.Payload) .String" none ;;
   .call "len(mtx.TxIn)" ["mtx.TxIn"] [] ;;
-  .loop "bd.i" "mtx.TxIn" [] (.invoke "api/tx_service.go:witnessToHex") ;;
+  .loop "bd.i" "mtx.TxIn" [] (.invoke Fn.witnessToHex) ;;
   .call "len(mtx.TxOut)" ["mtx.TxOut"] [] ;;
   .loop "bd.n" "mtx.TxOut" [] (
-    .invoke "api/util.go:AmountToString" ;;
+    .invoke Fn.AmountToString ;;
     ifR (nz "ats.err") (.set "bd.err" (.v "ats.err")) ;;
     .call "txscript.DisasmString" ["bd.err"] [] ;;
     ifR (nz "bd.err") .skip ;;
-    .invoke "api/util.go:extractAddressInfos" ;;
+    .invoke Fn.extractAddressInfos ;;
     ifR (nz "eai.err") (.set "bd.err" (.v "eai.err"))) ;;
   .set "bd.err" (.k 0)
 
 def f_GetTxStatus : Stmt :=
-  .invoke "api/util.go:checkTransactionIdLen" ;;
+  .invoke Fn.checkTransactionIdLen ;;
   ifR (nz "ctl.err") (.set "out" (.v "ctl.err")) ;;
   .call "wire.NewHashFromStr" ["txHash", "herr"] (onOk "herr" [.nz "txHash"]) ;;
   failIf (nz "herr") ApiErr.invalidTxHex ;;
   mark "node" ;;
-  .invoke "api/tx_service.go:APIServer.getStatus" ;;
+  .invoke Fn.getStatus ;;
   failIf (nz "gs.err") ApiErr.queryDataFailed ;;
   ok
 
 def f_GetRawTransaction : Stmt :=
-  .invoke "api/util.go:checkTransactionIdLen" ;;
+  .invoke Fn.checkTransactionIdLen ;;
   ifR (nz "ctl.err") (.set "out" (.v "ctl.err")) ;;
   .call "wire.NewHashFromStr" ["txHash", "herr"] (onOk "herr" [.nz "txHash"]) ;;
   failIf (nz "herr") ApiErr.invalidTxHex ;;
@@ -602,41 +765,41 @@ def f_GetRawTransaction : Stmt :=
     .ite (nz "grt.err") (Dt "lastTx.BlkSha .String" "lastTx.BlkSha" ;; fail ApiErr.blockHeaderNotFound) .skip ;;
     nodeBC "s.node.Blockchain() .BestBlockHeight")
   (D "tx" "MsgTx") ;;
-  .invoke "api/tx_service.go:APIServer.createTxRawResult" ;;
+  .invoke Fn.createTxRawResult ;;
   failIf (nz "ctr.err") ApiErr.rawTx ;;
   ok
 
 def f_DecodeRawTransaction : Stmt :=
-  .invoke "api/wallet_service.go:decodeHexStr" ;;
+  .invoke Fn.decodeHexStr ;;
   failIf (nz "dh.err") ApiErr.invalidTxHex ;;
   .call "mtx.SetBytes" ["drt.err"] [] ;;
   .ite (nz "drt.err") (Dt "err .Error" "drt.err" ;; fail ApiErr.invalidTxHex) .skip ;;
   mark "deep" ;;
-  .invoke "api/tx_service.go:APIServer.buildDecodeRawTxResponse" ;;
+  .invoke Fn.buildDecodeRawTxResponse ;;
   failIf (nz "bd.err") ApiErr.rawTx ;;
   ok
 
 def f_CreateRawTransaction_api : Stmt :=
-  .invoke "api/util.go:checkLocktime" ;;
+  .invoke Fn.checkLocktime ;;
   ifR (nz "cl.err") (.set "out" (.v "cl.err")) ;;
   .set "empty.sel" (.k 1) ;;                        -- in.Inputs
-  .invoke "api/util.go:checkNotEmpty" ;;
+  .invoke Fn.checkNotEmpty ;;
   ifR (nz "cne.err") (.set "out" (.v "cne.err")) ;;
   -- isEmpty(in.Inputs) was false: at least one input
   .call "len(in.Inputs)" ["inputs"] [⟨[.z "empty"], [.ge "inputs" 1]⟩] ;;
   .set "empty.sel" (.k 2) ;;                        -- in.Amounts
-  .invoke "api/util.go:checkNotEmpty" ;;
+  .invoke Fn.checkNotEmpty ;;
   ifR (nz "cne.err") (.set "out" (.v "cne.err")) ;;
   .loop "cr.i" "inputs" [.ge "inputs" 1] (
-    .invoke "api/util.go:checkTransactionIdLen" ;;
+    .invoke Fn.checkTransactionIdLen ;;
     ifR (nz "ctl.err") (.set "out" (.v "ctl.err"))) ;;
   .set "amounts" (.k 1) ;;
   .call "len(in.Amounts)" ["in.Amounts"] [] ;;
   .set "amt.sel" (.k 0) ;;
   .loop "cr.a" "in.Amounts" [.nz "amounts"] (
-    .invoke "api/util.go:checkAddressLen" ;;
+    .invoke Fn.checkAddressLen ;;
     ifR (nz "cal.err") (.set "out" (.v "cal.err")) ;;
-    .invoke "api/util.go:checkParseAmount" ;;
+    .invoke Fn.checkParseAmount ;;
     ifR (nz "cpa.err") (.set "out" (.v "cpa.err")) ;;
     MA "amounts[addr]" "amounts") ;;
   .set "subtractfeefrom" (.k 1) ;;
@@ -644,68 +807,68 @@ def f_CreateRawTransaction_api : Stmt :=
   .loop "cr.s" "in.Subtractfeefrom" [.nz "subtractfeefrom"] (
     flag "len(subfrom) == 0" "cr.se" ;;
     .ite (nz "cr.se") .skip (MA "subtractfeefrom[subfrom]" "subtractfeefrom")) ;;
-  .invoke "masswallet/wallet.go:WalletManager.CreateRawTransaction" ;;
+  .invoke Fn.CreateRawTransaction ;;
   ifR (nz "err") (failCvt "err" ApiErr.abnormalData) ;;
-  .invoke "api/util.go:checkTxFeeLimit" ;;
+  .invoke Fn.checkTxFeeLimit ;;
   ifR (nz "ctf.err") (.set "out" (.v "ctf.err")) ;;
   ok
 
 def f_CreateStakingTransaction_api : Stmt :=
   .set "amt.sel" (.k 2) ;;
-  .invoke "api/util.go:checkParseAmount" ;;
+  .invoke Fn.checkParseAmount ;;
   ifR (nz "cpa.err") (.set "out" (.v "cpa.err")) ;;
   flag "wire.IsValidStakingValue" "cs.valid" ;;
   failIf (isz "cs.valid") ApiErr.invalidAmount ;;
   .set "amt.sel" (.k 1) ;;
-  .invoke "api/util.go:checkParseAmount" ;;
+  .invoke Fn.checkParseAmount ;;
   failIf (nz "cpa.err") ApiErr.userTxFee ;;
   flag "len(in.FromAddress) > 0" "cs.from" ;;
-  .ite (nz "cs.from") (.set "addr.sel" (.k 1) ;; .invoke "api/util.go:checkWitnessAddress" ;; ifR (nz "cwa.err") (.set "out" (.v "cwa.err"))) .skip ;;
+  .ite (nz "cs.from") (.set "addr.sel" (.k 1) ;; .invoke Fn.checkWitnessAddress ;; ifR (nz "cwa.err") (.set "out" (.v "cwa.err"))) .skip ;;
   .set "addr.sel" (.k 2) ;;
-  .invoke "api/util.go:checkWitnessAddress" ;;
+  .invoke Fn.checkWitnessAddress ;;
   ifR (nz "cwa.err") (.set "out" (.v "cwa.err")) ;;
-  .invoke "masswallet/wallet.go:WalletManager.CreateStakingTransaction" ;;
+  .invoke Fn.CreateStakingTransaction ;;
   ifR (nz "err") (failCvt "err" ApiErr.abnormalData) ;;
-  .invoke "api/util.go:checkTxFeeLimit" ;;
+  .invoke Fn.checkTxFeeLimit ;;
   ifR (nz "ctf.err") (.set "out" (.v "ctf.err")) ;;
   ok
 
 def f_CreateBindingTransaction_api : Stmt :=
   .set "empty.sel" (.k 3) ;;                        -- in.Outputs
-  .invoke "api/util.go:checkNotEmpty" ;;
+  .invoke Fn.checkNotEmpty ;;
   ifR (nz "cne.err") (.set "out" (.v "cne.err")) ;;
   .call "len(in.Outputs)" ["in.Outputs"] [] ;;
   .set "amt.sel" (.k 5) ;;
   .loop "cb.i" "in.Outputs" [] (
-    .invoke "api/util.go:checkParseAmount" ;;
+    .invoke Fn.checkParseAmount ;;
     ifR (nz "cpa.err") (.set "out" (.v "cpa.err")) ;;
     flag "totalOutValue.Add overflow" "cb.ovf" ;;
     failIf (nz "cb.ovf") ApiErr.invalidAmount) ;;
   .set "amt.sel" (.k 1) ;;
-  .invoke "api/util.go:checkParseAmount" ;;
+  .invoke Fn.checkParseAmount ;;
   failIf (nz "cpa.err") ApiErr.userTxFee ;;
   flag "len(in.FromAddress) > 0" "cs.from" ;;
-  .ite (nz "cs.from") (.set "addr.sel" (.k 1) ;; .invoke "api/util.go:checkWitnessAddress" ;; ifR (nz "cwa.err") (.set "out" (.v "cwa.err"))) .skip ;;
+  .ite (nz "cs.from") (.set "addr.sel" (.k 1) ;; .invoke Fn.checkWitnessAddress ;; ifR (nz "cwa.err") (.set "out" (.v "cwa.err"))) .skip ;;
   .set "amt.sel" (.k 5) ;;
   .loop "cb.o" "in.Outputs" [] (
     .set "addr.sel" (.k 3) ;;
-    .invoke "api/util.go:checkWitnessAddress" ;;
+    .invoke Fn.checkWitnessAddress ;;
     ifR (nz "cwa.err") (.set "out" (.v "cwa.err")) ;;
     .set "pbt.sel" (.k 1) ;;
-    .invoke "api/util.go:parseBindingTarget" ;;
+    .invoke Fn.parseBindingTarget ;;
     .set "pbt.sel" (.k 0) ;;
     ifR (nz "pbt.err") (.set "out" (.v "pbt.err")) ;;
-    .invoke "api/util.go:checkParseAmount" ;;
+    .invoke Fn.checkParseAmount ;;
     ifR (nz "cpa.err") (.set "out" (.v "cpa.err"))) ;;
-  .invoke "masswallet/wallet.go:WalletManager.CreateBindingTransaction" ;;
+  .invoke Fn.CreateBindingTransaction ;;
   ifR (nz "err") (failCvt "err" ApiErr.abnormalData) ;;
-  .invoke "api/util.go:checkTxFeeLimit" ;;
+  .invoke Fn.checkTxFeeLimit ;;
   ifR (nz "ctf.err") (.set "out" (.v "ctf.err")) ;;
   ok
 
 def f_CreatePoolPkCoinbaseTransaction : Stmt :=
   .set "addr.sel" (.k 1) ;;
-  .invoke "api/util.go:checkWitnessAddress" ;;
+  .invoke Fn.checkWitnessAddress ;;
   ifR (nz "cwa.err") (.set "out" (.v "cwa.err")) ;;
   .set "from" (.v "witAddr") ;;
   .call "hex.DecodeString(in.Payload)" ["pp.err"] [] ;;
@@ -719,40 +882,40 @@ def f_CreatePoolPkCoinbaseTransaction : Stmt :=
   -- checkWitnessAddress succeeded: `from` is the typed non-nil address
   .call "from is witAddr of a successful checkWitnessAddress" ["from"] (always [.nz "from"]) ;;
   D "from" "EncodeAddress" ;;
-  .invoke "masswallet/wallet.go:WalletManager.AutoCreateRawTransaction" ;;
+  .invoke Fn.AutoCreateRawTransaction ;;
   ifR (nz "err") (failCvt "err" ApiErr.abnormalData) ;;
   .set "amt.sel" (.k 3) ;;
-  .invoke "api/util.go:checkParseAmount" ;;
-  .ite (nz "cpa.err") (.set "amt.sel" (.k 4) ;; .invoke "api/util.go:checkParseAmount") .skip ;;
+  .invoke Fn.checkParseAmount ;;
+  .ite (nz "cpa.err") (.set "amt.sel" (.k 4) ;; .invoke Fn.checkParseAmount) .skip ;;
   flag "max.Cmp(fee) < 0" "fee.big" ;;
   failIf (nz "fee.big") ApiErr.bigTransactionFee ;;
   ok
 
 def f_AutoCreateTransaction : Stmt :=
-  .invoke "api/util.go:checkLocktime" ;;
+  .invoke Fn.checkLocktime ;;
   ifR (nz "cl.err") (.set "out" (.v "cl.err")) ;;
   .set "empty.sel" (.k 2) ;;
-  .invoke "api/util.go:checkNotEmpty" ;;
+  .invoke Fn.checkNotEmpty ;;
   ifR (nz "cne.err") (.set "out" (.v "cne.err")) ;;
   .set "amounts" (.k 1) ;;
   .call "len(in.Amounts)" ["in.Amounts"] [] ;;
   .set "amt.sel" (.k 0) ;;
   .loop "cr.a" "in.Amounts" [.nz "amounts"] (
-    .invoke "api/util.go:checkAddressLen" ;;
+    .invoke Fn.checkAddressLen ;;
     ifR (nz "cal.err") (.set "out" (.v "cal.err")) ;;
-    .invoke "api/util.go:checkParseAmount" ;;
+    .invoke Fn.checkParseAmount ;;
     ifR (nz "cpa.err") (.set "out" (.v "cpa.err")) ;;
     MA "amounts[addr]" "amounts") ;;
   .set "amt.sel" (.k 1) ;;
-  .invoke "api/util.go:checkParseAmount" ;;
+  .invoke Fn.checkParseAmount ;;
   failIf (nz "cpa.err") ApiErr.userTxFee ;;
   flag "len(fromAddr) > 0" "cs.from" ;;
-  .ite (nz "cs.from") (.set "addr.sel" (.k 1) ;; .invoke "api/util.go:checkWitnessAddress" ;; ifR (nz "cwa.err") (.set "out" (.v "cwa.err"))) .skip ;;
+  .ite (nz "cs.from") (.set "addr.sel" (.k 1) ;; .invoke Fn.checkWitnessAddress ;; ifR (nz "cwa.err") (.set "out" (.v "cwa.err"))) .skip ;;
   flag "len(changeAddr) > 0" "cs.change" ;;
-  .ite (nz "cs.change") (.set "addr.sel" (.k 4) ;; .invoke "api/util.go:checkWitnessAddress" ;; ifR (nz "cwa.err") (.set "out" (.v "cwa.err"))) .skip ;;
-  .invoke "masswallet/wallet.go:WalletManager.AutoCreateRawTransaction" ;;
+  .ite (nz "cs.change") (.set "addr.sel" (.k 4) ;; .invoke Fn.checkWitnessAddress ;; ifR (nz "cwa.err") (.set "out" (.v "cwa.err"))) .skip ;;
+  .invoke Fn.AutoCreateRawTransaction ;;
   ifR (nz "err") (failCvt "err" ApiErr.abnormalData) ;;
-  .invoke "api/util.go:checkTxFeeLimit" ;;
+  .invoke Fn.checkTxFeeLimit ;;
   ifR (nz "ctf.err") (.set "out" (.v "ctf.err")) ;;
   ok
 
@@ -768,50 +931,50 @@ def f_getEstimateStakingAddress : Stmt :=
 
 def f_GetTransactionFee : Stmt :=
   .set "empty.sel" (.k 2) ;;
-  .invoke "api/util.go:checkNotEmpty" ;;
+  .invoke Fn.checkNotEmpty ;;
   ifR (nz "cne.err") (.set "out" (.v "cne.err")) ;;
-  .invoke "masswallet/wallet.go:WalletManager.CurrentWallet" ;;
+  .invoke Fn.CurrentWallet ;;
   ifR (isz "cw.len") (.set "err" (.k E.noWalletInUse) ;; failCvt' "err") ;;
   .call "len(in.Inputs)" ["inputs"] [] ;;
   .call "len(in.Amounts)" ["in.Amounts"] [] ;;
   .ite (isz "inputs") (
     flag "in.HasBinding" "gtf.b" ;;
     .ite (nz "gtf.b") (
-      .invoke "api/tx_service.go:mockBindingTarget" ;;
+      .invoke Fn.mockBindingTarget ;;
       .set "amt.sel" (.k 0) ;;
       .loop "gtf.i" "in.Amounts" [] (
         .set "addr.sel" (.k 5) ;;
-        .invoke "api/util.go:checkWitnessAddress" ;;
+        .invoke Fn.checkWitnessAddress ;;
         ifR (nz "cwa.err") (.set "out" (.v "cwa.err")) ;;
-        .invoke "api/util.go:checkParseAmount" ;;
+        .invoke Fn.checkParseAmount ;;
         ifR (nz "cpa.err") (.set "out" (.v "cpa.err"))) ;;
-      .invoke "masswallet/tx.go:WalletManager.EstimateBindingTxFee" ;;
+      .invoke Fn.EstimateBindingTxFee ;;
       ifR (nz "err") (failCvt "err" ApiErr.abnormalData))
     (
-      .invoke "api/tx_service.go:getEstimateStakingAddress" ;;
+      .invoke Fn.getEstimateStakingAddress ;;
       .set "amt.sel" (.k 0) ;;
       .loop "gtf.j" "in.Amounts" [] (
-        .invoke "api/util.go:checkParseAmount" ;;
+        .invoke Fn.checkParseAmount ;;
         ifR (nz "cpa.err") (.set "out" (.v "cpa.err"))) ;;
-      .invoke "masswallet/tx.go:WalletManager.EstimateStakingTxFee" ;;
+      .invoke Fn.EstimateStakingTxFee ;;
       ifR (nz "err") (failCvt "err" ApiErr.abnormalData)))
   (
     .loop "gtf.k" "inputs" [] (
-      .invoke "api/util.go:checkTransactionIdLen" ;;
+      .invoke Fn.checkTransactionIdLen ;;
       ifR (nz "ctl.err") (.set "out" (.v "ctl.err"))) ;;
-    .invoke "masswallet/tx.go:WalletManager.EstimateManualTxFee" ;;
+    .invoke Fn.EstimateManualTxFee ;;
     ifR (nz "err") (failCvt "err" ApiErr.abnormalData)) ;;
-  .invoke "api/util.go:AmountToString" ;;
+  .invoke Fn.AmountToString ;;
   failIf (nz "ats.err") ApiErr.unknownErr ;;
   ok
 
 def f_TxHistory : Stmt :=
   flag "len(in.Address) > 0" "th.a" ;;
-  .ite (nz "th.a") (.invoke "api/util.go:checkAddressLen" ;; ifR (nz "cal.err") (.set "out" (.v "cal.err"))) .skip ;;
+  .ite (nz "th.a") (.invoke Fn.checkAddressLen ;; ifR (nz "cal.err") (.set "out" (.v "cal.err"))) .skip ;;
   flag "in.Count > 1000" "th.big" ;;
   failIf (nz "th.big") ApiErr.invalidTxHistoryCount ;;
   CV "int(in.Count)" ;;
-  .invoke "masswallet/tx.go:WalletManager.GetTxHistory" ;;
+  .invoke Fn.GetTxHistory ;;
   ifR (nz "err") (failCvt "err" ApiErr.queryDataFailed) ;;
   -- sort.Slice calls the comparison with 0 ≤ i, j < len(histories); the elements were appended non-nil
   .call "sort.Slice: number of comparisons" ["th.n"] [] ;;
@@ -830,13 +993,13 @@ def f_GetStakingHistory_api : Stmt :=
   nodeBC "s.node.Blockchain() .GetUnexpiredStakingRank" ;;
   .call "GetUnexpiredStakingRank" ["rewards", "gsh.err"] [] ;;
   failIf (nz "gsh.err") ApiErr.getStakingTxDetail ;;
-  .invoke "masswallet/wallet.go:WalletManager.GetStakingHistory" ;;
+  .invoke Fn.GetStakingHistory ;;
   failIf (nz "err") ApiErr.getStakingTxDetail ;;
   .set "weights" (.k 1) ;;
   .loop "gsh.i" "ret" [.nz "weights"] (
     .call "range stakingTxs" ["lTx"] (always [.nz "lTx"]) ;;
     D "lTx" "Utxo" ;;
-    .invoke "api/util.go:AmountToString" ;;
+    .invoke Fn.AmountToString ;;
     failIf (nz "ats.err") ApiErr.getStakingTxDetail ;;
     flag "weights[tx.Utxo.Address] exists" "gsh.seen" ;;
     .ite (nz "gsh.seen") .skip (
@@ -855,7 +1018,7 @@ def f_GetStakingHistory_api : Stmt :=
   ok
 
 def f_GetBindingHistory_api : Stmt :=
-  .invoke "masswallet/wallet.go:WalletManager.GetBindingHistory" ;;
+  .invoke Fn.GetBindingHistory ;;
   ifR (nz "err") (failCvt "err" ApiErr.queryDataFailed) ;;
   mark "node" ;;
   .loop "gbh.i" "ret" [] (
@@ -863,7 +1026,7 @@ def f_GetBindingHistory_api : Stmt :=
     .call "range details" ["detail", "detail.MsgTx", "detail.Utxo.Holder", "detail.Utxo.BindingTarget"]
       (always [.nz "detail", .nz "detail.Utxo.Holder", .nz "detail.Utxo.BindingTarget"]) ;;
     D "detail" "Utxo" ;;
-    .invoke "api/util.go:checkFormatAmount" ;; ifR (nz "cfa.err") (.set "out" (.v "cfa.err")) ;;
+    .invoke Fn.checkFormatAmount ;; ifR (nz "cfa.err") (.set "out" (.v "cfa.err")) ;;
     flag "detail.IsDeposit()" "gbh.dep" ;;
     .ite (.and (nz "gbh.dep") (nz "detail.MsgTx")) (
       flag "blockchain.IsCoinBaseTx(detail.MsgTx)" "gbh.cb" ;;
@@ -900,7 +1063,7 @@ def f_GetBindingHistory_api : Stmt :=
 def f_SendRawTransaction : Stmt :=
   flag "len(in.Hex) == 0" "srt.empty" ;;
   failIf (nz "srt.empty") ApiErr.invalidTxHex ;;
-  .invoke "api/wallet_service.go:decodeHexStr" ;;
+  .invoke Fn.decodeHexStr ;;
   failIf (nz "dh.err") ApiErr.invalidTxHex ;;
   .call "msgtx.SetBytes" ["srt.err"] [] ;;
   failIf (nz "srt.err") ApiErr.invalidTxHex ;;
@@ -919,7 +1082,7 @@ def f_SendRawTransaction : Stmt :=
   nodeBC "s.node.Blockchain() .ProcessTx" ;;
   .call "ProcessTx" ["srt.err"] [] ;;
   .ite (nz "srt.err") (
-    .invoke "masswallet/wallet.go:WalletManager.ClearUsedUTXOMark" ;;
+    .invoke Fn.ClearUsedUTXOMark ;;
     .call "convertResponseError" ["cvt", "cvt.unknown"] [] ;;
     .ite (nz "cvt.unknown") (Dt "err .Error" "srt.err" ;; fail ApiErr.rejectTx) (.set "out" (.v "cvt") ;; .ret)) .skip ;;
   -- massutil.Tx.Hash() returns the address of the cached hash: never nil
@@ -972,7 +1135,7 @@ def f_CheckTargetBinding : Stmt :=
   .loop "ctb.i" "in.Targets" [.nz "infos"] (
     flag "infos[addr] exists" "ctb.seen" ;;
     .ite (nz "ctb.seen") .skip (
-      .invoke "api/util.go:parseBindingTarget" ;;
+      .invoke Fn.parseBindingTarget ;;
       .ite (nz "pbt.err") (MA "infos[addr]" "infos") (
         MA "infos[addr]" "infos" ;;
         mark "node" ;;
@@ -1017,7 +1180,7 @@ def f_CheckReady : Stmt :=
   flag "ws.Ready() && !ws.IsRemoved()" "ready"
 
 def f_UseWallet : Stmt :=
-  .invoke "masswallet/wallet.go:WalletManager.CheckReady" ;;
+  .invoke Fn.CheckReady ;;
   ifR (nz "err") .skip ;;
   ifR (isz "ready") (.set "err" (.k E.walletUnready)) ;;
   .call "w.ksmgr.UseKeystoreForWallet" ["err"] [] ;;
@@ -1061,7 +1224,7 @@ def f_CreateWallet : Stmt :=
   .call "w.syncStore.PutWalletStatus" ["err"] []
 
 def importBody (keystoreCall : String) : Stmt :=
-  .invoke "masswallet/ntfnshandler.go:NtfnsHandler.IsWorkerBusy" ;;
+  .invoke Fn.IsWorkerBusy ;;
   ifR (nz "busy") (.set "err" (.k E.tooManyTask)) ;;
   .set "am" (.k 0) ;;
   .scope (
@@ -1084,7 +1247,7 @@ def importBody (keystoreCall : String) : Stmt :=
     .ite (nz "am") (D "am" "Name") .skip ;;
     .ret) .skip ;;
   flag "!ws.Ready()" "iw.unready" ;;
-  .ite (nz "iw.unready") (D "am" "Name" ;; .invoke "masswallet/ntfnshandler.go:NtfnsHandler.OnImportWallet") .skip ;;
+  .ite (nz "iw.unready") (D "am" "Name" ;; .invoke Fn.OnImportWallet) .skip ;;
   D "am" "Name"
 
 def f_ImportWallet : Stmt := importBody "w.ksmgr.ImportKeystore"
@@ -1093,11 +1256,11 @@ def f_ImportWalletWithMnemonic : Stmt := importBody "w.ksmgr.ImportKeystoreWithM
 def f_ExportWallet : Stmt := .call "w.ksmgr.ExportKeystore" ["err"] []
 
 def f_RemoveWallet : Stmt :=
-  .invoke "masswallet/ntfnshandler.go:NtfnsHandler.IsWorkerBusy" ;;
+  .invoke Fn.IsWorkerBusy ;;
   ifR (nz "busy") (.set "err" (.k E.tooManyTask)) ;;
   .call "w.ksmgr.CheckPrivPassphrase" ["err"] [] ;;
   ifR (nz "err") .skip ;;
-  .invoke "masswallet/ntfnshandler.go:NtfnsHandler.OnRemoveWallet"
+  .invoke Fn.OnRemoveWallet
 
 def f_ChangePrivPassphrase : Stmt :=
   curKeystore "am" ;;
@@ -1156,7 +1319,7 @@ def f_GetUtxo : Stmt :=
   .set "ret.map" (.k 1) ;;
   .call "len(addrs)" ["addrs"] [] ;;
   .ite (isz "addrs") (D "am" "ListAddresses") .skip ;;
-  .invoke "masswallet/tx.go:WalletManager.getUtxos" ;;
+  .invoke Fn.getUtxos ;;
   ifR (nz "err") .skip ;;
   .call "len(creditsMap)" ["gu.n"] [] ;;
   .loop "gu2.i" "gu.n" [.nz "ret.map"] (
@@ -1226,7 +1389,7 @@ def f_GetAddresses : Stmt :=
   .set "err" (.k 0)
 
 def f_GetAllAddressesWithPubkey : Stmt :=
-  .invoke "masswallet/wallet.go:WalletManager.GetAddresses" ;;
+  .invoke Fn.GetAddresses ;;
   ifR (nz "err") .skip ;;
   .set "m0" (.k 1) ;;
   .set "m1" (.k 1) ;;
@@ -1248,7 +1411,7 @@ def f_GetAllAddressesWithPubkey : Stmt :=
       .ite (nz "ok") (D "addr" "PubKey") .skip))
 
 def f_CreateRawTransaction : Stmt :=
-  .invoke "masswallet/tx.go:WalletManager.constructTxIn" ;;
+  .invoke Fn.constructTxIn ;;
   ifR (nz "err") .skip ;;
   flag "len(changeAddr) == 0" "crt.nochange" ;;
   .ite (nz "crt.nochange") (
@@ -1256,25 +1419,25 @@ def f_CreateRawTransaction : Stmt :=
     IXK "senders[0]" "senders" 0 ;;
     .call "senders[0]" ["senders[0]"] (always [.nz "senders[0]"]) ;;
     Dt "senders[0] .StdEncodeAddress" "senders[0]") .skip ;;
-  .invoke "masswallet/tx.go:WalletManager.EstimateManualTxFee" ;;
+  .invoke Fn.EstimateManualTxFee ;;
   ifR (nz "err") .skip ;;
   mark "deep" ;;
-  .invoke "masswallet/common.go:maybeSubtractFeeFromAmounts" ;;
+  .invoke Fn.maybeSubtractFeeFromAmounts ;;
   ifR (nz "err") .skip ;;
   flag "totalIn < noChangeTotalOutAndFee" "crt.short" ;;
   ifR (nz "crt.short") (.set "err" (.k E.notEnoughInputs)) ;;
   flag "!changeAmount.IsZero()" "crt.change" ;;
   .ite (nz "crt.change") (
-    .invoke "masswallet/tx.go:WalletManager.EstimateManualTxFee" ;;
+    .invoke Fn.EstimateManualTxFee ;;
     ifR (nz "err") .skip ;;
-    .invoke "masswallet/common.go:maybeSubtractFeeFromAmounts" ;;
+    .invoke Fn.maybeSubtractFeeFromAmounts ;;
     ifR (nz "err") .skip ;;
     flag "totalIn <= totalOutAndFee" "crt.short" ;;
     ifR (nz "crt.short") (.set "err" (.k E.notEnoughInputs))) .skip ;;
-  .invoke "masswallet/tx.go:WalletManager.constructTxOut" ;;
+  .invoke Fn.constructTxOut ;;
   ifR (nz "err") .skip ;;
   D "mtx" "LockTime" ;;
-  .invoke "masswallet/tx.go:messageToHex" ;;
+  .invoke Fn.messageToHex ;;
   ifR (nz "err") .skip ;;
   .call "len(mtx.TxOut)" ["mtx.TxOut"] [] ;;
   .loop "crt.o" "mtx.TxOut" [] (
@@ -1284,21 +1447,21 @@ def f_CreateRawTransaction : Stmt :=
     ifR (nz "err") .skip) ;;
   .call "totalIn.Sub(totalOut)" ["err"] [] ;;
   ifR (nz "err") .skip ;;
-  .invoke "masswallet/wallet.go:WalletManager.MarkUsedUTXO" ;;
+  .invoke Fn.MarkUsedUTXO ;;
   .set "err" (.k 0)
 
-def autoTail (estimate : String) (tx : String) : Stmt :=
+def autoTail (estimate : Nat) (tx : String) : Stmt :=
   .invoke estimate ;;
   ifR (nz "err") .skip ;;
   D tx "LockTime" ;;
-  .invoke "masswallet/tx.go:messageToHex" ;;
+  .invoke Fn.messageToHex ;;
   ifR (nz "err") .skip ;;
-  .invoke "masswallet/wallet.go:WalletManager.MarkUsedUTXO" ;;
+  .invoke Fn.MarkUsedUTXO ;;
   .set "err" (.k 0)
 
-def f_AutoCreateRawTransaction : Stmt := autoTail "masswallet/tx.go:WalletManager.EstimateTxFee" "mtx"
-def f_CreateStakingTransaction : Stmt := autoTail "masswallet/tx.go:WalletManager.EstimateStakingTxFee" "msgTx"
-def f_CreateBindingTransaction : Stmt := autoTail "masswallet/tx.go:WalletManager.EstimateBindingTxFee" "msgTx"
+def f_AutoCreateRawTransaction : Stmt := autoTail Fn.EstimateTxFee "mtx"
+def f_CreateStakingTransaction : Stmt := autoTail Fn.EstimateStakingTxFee "msgTx"
+def f_CreateBindingTransaction : Stmt := autoTail Fn.EstimateBindingTxFee "msgTx"
 
 def f_MarkUsedUTXO : Stmt := .skip
 def f_UTXOUsed : Stmt := .skip
@@ -1308,7 +1471,7 @@ def f_SignRawTx : Stmt :=
   curKeystore "ks" ;;
   flag "flag is a known sighash name" "srt.flag" ;;
   ifR (isz "srt.flag") (.set "err" (.k E.invalidFlag)) ;;
-  .invoke "masswallet/tx.go:WalletManager.signWitnessTx" ;;
+  .invoke Fn.signWitnessTx ;;
   ifR (nz "err") .skip ;;
   .call "tx.Bytes" ["err"] [] ;;
   ifR (nz "err") (.set "err" (.k E.signFailed)) ;;
@@ -1337,11 +1500,11 @@ def serverBC (text : String) : Stmt := .call "w.server.Blockchain()" ["sbc"] (al
 
 def f_Start_wm : Stmt :=
   serverBC "w.server.Blockchain() .RegisterListener" ;;
-  .invoke "masswallet/ntfnshandler.go:NtfnsHandler.Start"
+  .invoke Fn.Start
 
 def f_Stop_wm : Stmt :=
   serverBC "w.server.Blockchain() .UnregisterListener" ;;
-  .invoke "masswallet/ntfnshandler.go:NtfnsHandler.Stop"
+  .invoke Fn.Stop
 
 def f_CloseDB : Stmt := .skip
 
@@ -1396,7 +1559,7 @@ def f_addTxIn : Stmt :=
   .call "len(inputUtxos)" ["inputUtxos"] [] ;;
   .loop "ati.i" "inputUtxos" [] (
     .call "utx.OutPoint.Index" ["vout"] [] ;;
-    .invoke "masswallet/common.go:WalletManager.existsMsgTx" ;;
+    .invoke Fn.existsMsgTx ;;
     ifR (nz "perr") (.set "err" (.v "perr")) ;;
     D "prevTx" "TxOut" ;;
     IX "prevTx.TxOut[txIn.PreviousOutPoint.Index]" "vout" "prevTx.TxOut" ;;
@@ -1423,19 +1586,19 @@ def f_autoConstructTxInAndChangeTxOut : Stmt :=
     .loop "ac.q" "ac.inner" [] (
       .call "targetTxFee.Add / want.Add" ["err"] [] ;;
       ifR (nz "err") .skip ;;
-      .invoke "masswallet/tx.go:WalletManager.findEligibleUtxos" ;;
+      .invoke Fn.findEligibleUtxos ;;
       ifR (nz "err") .skip ;;
       flag "found < wantAdj" "ac.short" ;;
       ifR (nz "ac.short") (.set "err" (.k E.other)) ;;
       flag "change needs an output" "ac.change" ;;
-      .ite (nz "ac.change") (.invoke "masswallet/common.go:amountToTxOut" ;; ifR (nz "err") .skip) .skip) ;;
+      .ite (nz "ac.change") (.invoke Fn.amountToTxOut ;; ifR (nz "err") .skip) .skip) ;;
     .set "utxos" (.v "selections") ;;
-    .invoke "masswallet/tx.go:WalletManager.estimateSignedSize" ;;
+    .invoke Fn.estimateSignedSize ;;
     ifR (nz "err") (.set "err" (.k E.invalidParameter)) ;;
     .call "blockchain.CalcMinRequiredTxRelayFee" ["err"] [] ;;
     ifR (nz "err") .skip ;;
     flag "targetTxFee >= requiredFee" "ac.done" ;;
-    .ite (nz "ac.done") (.invoke "masswallet/common.go:WalletManager.addTxIn" ;; .ret) .skip) ;;
+    .ite (nz "ac.done") (.invoke Fn.addTxIn ;; .ret) .skip) ;;
   .set "err" (.k E.other)
 
 def f_prepareFromAddresses : Stmt :=
@@ -1481,7 +1644,7 @@ def f_PayToWitnessV0Address : Stmt :=
 def f_amountToTxOut : Stmt :=
   flag "amount.IsZero()" "ato.z" ;;
   ifR (nz "ato.z") (.set "err" (.k E.invalidAmount)) ;;
-  .invoke "masswallet/common.go:PayToWitnessV0Address"
+  .invoke Fn.PayToWitnessV0Address
 
 -- ==================================================================== masswallet/tx.go
 
@@ -1492,8 +1655,8 @@ def f_constructTxIn : Stmt :=
     .call "wire.NewHashFromStr(input.TxId)" ["txHash", "herr"] (onOk "herr" [.nz "txHash"]) ;;
     .ite (nz "herr") (Dt "err .Error" "herr" ;; .set "err" (.k E.shaHashFromStr) ;; .ret) .skip ;;
     .call "input.Vout" ["vout"] [] ;;
-    .invoke "masswallet/common.go:WalletManager.existsMsgTx" ;;
-    .ite (.and (nz "perr") (nz "perr.notfound")) (.invoke "masswallet/common.go:WalletManager.existsUnminedTx") .skip ;;
+    .invoke Fn.existsMsgTx ;;
+    .ite (.and (nz "perr") (nz "perr.notfound")) (.invoke Fn.existsUnminedTx) .skip ;;
     ifR (nz "perr") (.set "err" (.k E.invalidParameter)) ;;
     D "prevTx" "TxOut" ;;
     ifR (.atom (.le "prevTx.TxOut" "vout")) (.set "err" (.k E.invalidParameter)) ;;
@@ -1511,7 +1674,7 @@ def f_constructTxIn : Stmt :=
       flag "pks.IsBinding()" "cti.bind" ;;
       .ite (nz "cti.bind") (
         .ite (nz "block") (D "block" "Height") (
-          .invoke "masswallet/wallet.go:WalletManager.SyncedTo" ;;
+          .invoke Fn.SyncedTo ;;
           ifR (nz "st.err") (.set "err" (.v "st.err")))) .skip) ;;
     .call "totalValue.AddInt" ["aerr"] [] ;;
     ifR (nz "aerr") (.set "err" (.k E.invalidAmount))) ;;
@@ -1523,10 +1686,10 @@ def f_constructTxIn : Stmt :=
 def f_constructTxOut : Stmt :=
   .call "len(amounts)" ["cto.n"] [] ;;
   .loop "cto.i" "cto.n" [] (
-    .invoke "masswallet/common.go:PayToWitnessV0Address" ;;
+    .invoke Fn.PayToWitnessV0Address ;;
     ifR (nz "err") .skip) ;;
   flag "!changeAmount.IsZero()" "cto.c" ;;
-  .ite (nz "cto.c") (.invoke "masswallet/common.go:PayToWitnessV0Address" ;; ifR (nz "err") .skip) .skip ;;
+  .ite (nz "cto.c") (.invoke Fn.PayToWitnessV0Address ;; ifR (nz "err") .skip) .skip ;;
   .call "len(mtx.TxOut)" ["mtx.TxOut"] [] ;;
   .loop "cto.j" "mtx.TxOut" [] (
     .call "blockchain.IsDust" ["dust", "err"] [] ;;
@@ -1553,11 +1716,11 @@ def f_constructStakingTxOut : Stmt :=
 def f_messageToHex : Stmt := .call "msg.Encode" ["err"] []
 
 def estimateBody (outs : Stmt) : Stmt :=
-  .invoke "masswallet/common.go:WalletManager.prepareFromAddresses" ;;
+  .invoke Fn.prepareFromAddresses ;;
   ifR (nz "err") .skip ;;
   mark "deep" ;;
   outs ;;
-  .invoke "masswallet/common.go:WalletManager.autoConstructTxInAndChangeTxOut" ;;
+  .invoke Fn.autoConstructTxInAndChangeTxOut ;;
   ifR (nz "err") .skip ;;
   .set "mtx" (.k 1) ;;
   .set "msgTx" (.k 1) ;;
@@ -1565,10 +1728,10 @@ def estimateBody (outs : Stmt) : Stmt :=
 
 def f_EstimateTxFee : Stmt := estimateBody (
   .call "len(amounts)" ["etf.n"] [] ;;
-  .loop "etf.i" "etf.n" [] (.invoke "masswallet/common.go:amountToTxOut" ;; ifR (nz "err") .skip))
+  .loop "etf.i" "etf.n" [] (.invoke Fn.amountToTxOut ;; ifR (nz "err") .skip))
 
 def f_EstimateStakingTxFee : Stmt := estimateBody (
-  .invoke "masswallet/tx.go:constructStakingTxOut" ;; ifR (nz "err") .skip)
+  .invoke Fn.constructStakingTxOut ;; ifR (nz "err") .skip)
 
 def f_EstimateBindingTxFee : Stmt := estimateBody (
   .call "len(outputs)" ["outputs"] [] ;;
@@ -1582,7 +1745,7 @@ def f_estimateSignedSize : Stmt :=
   .loop "ess.i" "utxos" [] (
     .set "cur.in" (.v "ess.i") ;;
     .call "utx.OutPoint.Index" ["vout"] [] ;;
-    .invoke "masswallet/common.go:WalletManager.existsMsgTx" ;;
+    .invoke Fn.existsMsgTx ;;
     ifR (nz "perr") (.set "err" (.v "perr")) ;;
     Dt "mtx .TxOut" "prevTx" ;;          -- Go's local `mtx` is the transaction returned by existsMsgTx
     IX "mtx.TxOut[txidx]" "vout" "prevTx.TxOut" ;;
@@ -1615,9 +1778,9 @@ def f_findEligibleUtxos : Stmt :=
   ifR (isz "witnessAddr") (.set "err" (.k E.invalidParameter)) ;;
   flag "amount.IsZero()" "feu.z" ;;
   ifR (nz "feu.z") (.set "err" (.k E.invalidParameter)) ;;
-  .invoke "masswallet/tx.go:WalletManager.getUtxosExcludeBindingAndStaking" ;;
+  .invoke Fn.getUtxosExcludeBindingAndStaking ;;
   ifR (nz "err") .skip ;;
-  .invoke "masswallet/tx.go:optOutputs" ;;
+  .invoke Fn.optOutputs ;;
   ifR (nz "err") .skip ;;
   .ite (nz "selections") (
     -- getUtxosExcludeBindingAndStaking succeeded: a wallet is in use and every address resolved
@@ -1736,14 +1899,14 @@ def f_signWitnessTx : Stmt :=
     -- the cache only holds the non-nil transactions stored below
     .call "cache[txIn.PreviousOutPoint.Hash]" ["prevTx", "ok", "prevTx.TxOut"] [⟨[.nz "ok"], [.nz "prevTx"]⟩] ;;
     .ite (isz "ok") (
-      .invoke "masswallet/common.go:WalletManager.existsMsgTx" ;;
+      .invoke Fn.existsMsgTx ;;
       MA "cacheMeta[txIn.PreviousOutPoint.Hash]" "cacheMeta" ;;
-      .ite (.and (nz "perr") (nz "perr.notfound")) (.invoke "masswallet/common.go:WalletManager.existsUnminedTx") .skip ;;
+      .ite (.and (nz "perr") (nz "perr.notfound")) (.invoke Fn.existsUnminedTx) .skip ;;
       ifR (nz "perr") (.set "err" (.k E.utxoNotExists)) ;;
       MA "cache[txIn.PreviousOutPoint.Hash]" "cache") .skip ;;
     D "prevTx" "TxOut" ;;
     ifR (.gtU32Pred "vout" "prevTx.TxOut") (.set "err" (.k E.invalidIndex)) ;;
-    .invoke "masswallet/common.go:WalletManager.existsOutPoint" ;;
+    .invoke Fn.existsOutPoint ;;
     ifR (nz "oerr") (.set "err" (.k E.utxoNotExists)) ;;
     D "flags" "Spent" ;;
     flag "flags.Spent" "sw.spent" ;;
@@ -1758,7 +1921,7 @@ def f_signWitnessTx : Stmt :=
       ifR (nz "err") .skip) .skip ;;
     .call "cacheMeta[txIn.PreviousOutPoint.Hash]" ["meta"] [] ;;
     .ite (nz "meta") (D "meta" "Height") (
-      .invoke "masswallet/wallet.go:WalletManager.SyncedTo" ;;
+      .invoke Fn.SyncedTo ;;
       ifR (nz "st.err") (.set "err" (.v "st.err"))) ;;
     D "prevTxOut" "PkScript" ;;
     .call "txscript.NewEngine" ["vm", "err"] (onOk "err" [.nz "vm"]) ;;
@@ -1775,7 +1938,7 @@ def f_EstimateManualTxFee : Stmt :=
     ifR (nz "err") (.set "err" (.k E.other)) ;;
     Dt "*hash" "hash") ;;
   .set "utxos" (.v "inputs") ;;
-  .invoke "masswallet/tx.go:WalletManager.estimateSignedSize" ;;
+  .invoke Fn.estimateSignedSize ;;
   ifR (nz "err") .skip ;;
   .call "blockchain.CalcMinRequiredTxRelayFee" ["err"] []
 
@@ -1823,7 +1986,7 @@ def f_GetTxHistory : Stmt :=
     (
       flag "rest == 0" "gth.r0" ;;
       .ite (nz "gth.r0") .skip (
-        .invoke "masswallet/tx.go:selectRelatedTx" ;;
+        .invoke Fn.selectRelatedTx ;;
         D "res" "SortedHeights" ;;
         .call "len(res.SortedHeights)" ["gth.h2"] [] ;;
         .loop "gth.m" "gth.h2" [.nz "rTxLimit.Data"] (MA "rTxLimit.Data[height]" "rTxLimit.Data")))) ;;
@@ -1859,7 +2022,7 @@ def f_GetTxHistory : Stmt :=
           D "txOut" "PkScript" ;;
           .call "utils.ParsePkScript" ["ps", "err"] (onOk "err" [.nz "ps"]) ;;
           ifR (nz "err") .skip ;;
-          .invoke "masswallet/common.go:AmountToString" ;;
+          .invoke Fn.AmountToString_wm ;;
           ifR (nz "ats.err") (.set "err" (.v "ats.err")) ;;
           D "ps" "StdEncodeAddress")))) ;;
   .call "len(histories)" ["histories"] [] ;;
@@ -1897,10 +2060,10 @@ def f_NewNtfnsHandler : Stmt :=
   Dt "*syncedTo" "syncedTo"
 
 def f_Start : Stmt :=
-  .invoke "masswallet/wallet.go:WalletManager.SyncedTo" ;;
+  .invoke Fn.SyncedTo ;;
   ifR (nz "st.err") (.set "err" (.v "st.err")) ;;
-  .invoke "masswallet/wallet.go:WalletManager.ChainIndexerSyncedHeight" ;;
-  .scope (.invoke "masswallet/ntfnshandler.go:NtfnsHandler.getReadyWallets") ;;
+  .invoke Fn.ChainIndexerSyncedHeight ;;
+  .scope (.invoke Fn.getReadyWallets) ;;
   ifR (nz "err") .skip ;;
   .call "fast-forward heights" ["st.ff"] [] ;;
   .loop "st.i" "st.ff" [] (
@@ -1913,12 +2076,12 @@ def f_Start : Stmt :=
   .loop "st.j" "st.cu" [] (
     .call "FetchBlockByHeight" ["blk", "err"] (onOk "err" [.nz "blk"]) ;;
     ifR (nz "err") .skip ;;
-    .invoke "masswallet/ntfnshandler.go:NtfnsHandler.processConnectedBlock" ;;
+    .invoke Fn.processConnectedBlock ;;
     ifR (nz "err") .skip) ;;
-  .invoke "masswallet/ntfnshandler.go:NtfnsHandler.initTaskChan" ;;
+  .invoke Fn.initTaskChan ;;
   .set "err" (.k 0)
 
-def f_Stop : Stmt := .invoke "masswallet/wallet.go:WalletManager.CloseDB"
+def f_Stop : Stmt := .invoke Fn.CloseDB
 
 def f_handle : Stmt :=
   .call "events until quit" ["hd.n"] [] ;;
@@ -1927,11 +2090,11 @@ def f_handle : Stmt :=
     .ite (.atom (.eqk "hd.kind" 1)) (
       -- OnBlockConnected only enqueues the non-nil blocks the node announces
       .call "<-h.queueBlock" ["block"] (always [.nz "block"]) ;;
-      .invoke "masswallet/ntfnshandler.go:NtfnsHandler.processConnectedBlock" ;;
+      .invoke Fn.processConnectedBlock ;;
       .ite (nz "err") (D "block" "Header") .skip)
     (.ite (.atom (.eqk "hd.kind" 2)) (
       .call "<-h.queueMsgTx" ["tx"] (always [.nz "tx"]) ;;
-      .invoke "masswallet/ntfnshandler.go:NtfnsHandler.proccessReceivedTx" ;;
+      .invoke Fn.proccessReceivedTx ;;
       .ite (nz "err") (D "tx" "TxHash") .skip) .skip))
 
 def f_onRelevantTx : Stmt := .call "w.txStore.AddRelevantTx (unmined)" ["err"] []
@@ -2000,6 +2163,18 @@ def f_filterTxForImporting : Stmt :=
   ifR (nz "fi.both") (.set "rec" (.k 0) ;; .set "err" (.k E.other)) ;;
   .set "err" (.k 0)
 
+/-- one step of filterTx's output loop: an unsupported script is skipped (`continue`), any other parse
+    error and a keystore error leave filterTx with that error (MW.Props.C19.no_stall_*) -/
+def filterTxOutStep : Stmt :=
+  .call "utils.ParsePkScript" ["ps", "pserr", "pserr.unsupported"] (onOk "pserr" [.nz "ps"]) ;;
+  .ite (nz "pserr") (
+    .ite (nz "pserr.unsupported") .skip (.set "err" (.v "pserr") ;; .ret))
+  (
+    D "ps" "StdScriptAddress" ;;
+    .call "w.ksmgr.GetManagedAddressByScriptHash" ["ma", "merr"] [] ;;
+    ifR (nz "merr") (.set "err" (.v "merr")) ;;
+    .ite (nz "ma") (D "ma" "Account") .skip)
+
 /-- filterTx; callers set `blockMeta` (0 for an unconfirmed transaction) and `recInCurBlk`
     (a made map whenever blockMeta ≠ nil) -/
 def f_filterTx : Stmt :=
@@ -2026,7 +2201,7 @@ def f_filterTx : Stmt :=
           .call "w.chainFetcher.FetchTxBySha" ["prevTx", "ferr", "prevTx.TxOut"] [] ;;
           ifR (nz "ferr") (.set "err" (.v "ferr") ;; .set "ft.abort" (.k 1)) ;;
           .ite (isz "prevTx") (
-            .invoke "masswallet/common.go:WalletManager.existsUnminedTx" ;;
+            .invoke Fn.existsUnminedTx ;;
             .ite (.and (nz "perr") (isz "perr.notfound")) (.set "err" (.v "perr") ;; .set "ft.abort" (.k 1) ;; .ret) .skip) .skip) .skip ;;
         .ite (isz "prevTx") (
           .set "fields" (.k 1) ;;
@@ -2055,21 +2230,13 @@ def f_filterTx : Stmt :=
       -- a `return` inside the iteration leaves filterTx
       ifR (nz "ft.abort") .skip)) ;;
   .call "len(tx.TxOut)" ["tx.TxOut"] [] ;;
-  .loop "ft.o" "tx.TxOut" [.nz "rec"] (
-    .call "utils.ParsePkScript" ["ps", "pserr", "pserr.unsupported"] (onOk "pserr" [.nz "ps"]) ;;
-    .ite (nz "pserr") (
-      .ite (nz "pserr.unsupported") .skip (.set "err" (.v "pserr") ;; .ret))
-    (
-      D "ps" "StdScriptAddress" ;;
-      .call "w.ksmgr.GetManagedAddressByScriptHash" ["ma", "merr"] [] ;;
-      ifR (nz "merr") (.set "err" (.v "merr")) ;;
-      .ite (nz "ma") (D "ma" "Account") .skip)) ;;
+  .loop "ft.o" "tx.TxOut" [.nz "rec"] filterTxOutStep ;;
   flag "no relevant input or output" "ft.none" ;;
   ifR (nz "ft.none") (.set "err" (.k 0) ;; .set "isRelevant" (.k 0)) ;;
   flag "rec.HasBindingIn && rec.HasBindingOut" "ft.both" ;;
   ifR (nz "ft.both") (.set "err" (.k E.other)) ;;
   .ite (isz "blockMeta") (
-    .invoke "masswallet/ntfnshandler.go:NtfnsHandler.onRelevantTx" ;;
+    .invoke Fn.onRelevantTx ;;
     ifR (nz "err") .skip ;;
     -- h.mempool is made by NewNtfnsHandler
     .call "h.mempool" ["h.mempool"] (always [.nz "h.mempool"]) ;;
@@ -2093,7 +2260,7 @@ def f_filterBlock : Stmt :=
     .set "recInCurBlk" (.k 1) ;;
     .set "blockMeta" (.k 1) ;;
     .loop "i" "block.Transactions" [.nz "confirmedTxs", .nz "recInCurBlk", .nz "blockMeta", .eqv "txLocs" "block.Transactions"] (
-      .invoke "masswallet/ntfnshandler.go:NtfnsHandler.filterTx" ;;
+      .invoke Fn.filterTx ;;
       ifR (nz "err") .skip ;;
       .ite (nz "isRelevant") (
         IX "txLocs[i]" "i" "txLocs" ;;
@@ -2104,7 +2271,7 @@ def f_filterBlock : Stmt :=
   -- addedExpireMempool is made by processConnectedBlock
   .call "addedExpireMempool" ["addedExpireMempool"] (always [.nz "addedExpireMempool"]) ;;
   MA "addedExpireMempool[block.Header.Height]" "addedExpireMempool" ;;
-  .invoke "masswallet/ntfnshandler.go:NtfnsHandler.onRelevantBlockConnected" ;;
+  .invoke Fn.onRelevantBlockConnected ;;
   ifR (nz "err") .skip ;;
   .call "w.syncStore.SetSyncedTo" ["err"] []
 
@@ -2136,14 +2303,14 @@ def f_reorg : Stmt :=
   .call "maps made by the caller" ["rollbackBlock"] (always [.nz "rollbackBlock"]) ;;
   .call "step 1: blocks to walk back" ["ro.n1"] [] ;;
   .loop "ro.i" "ro.n1" [.nz "rollbackBlock"] (
-    .invoke "masswallet/ntfnshandler.go:NtfnsHandler.getBlock" ;;
+    .invoke Fn.getBlock ;;
     ifR (nz "err") .skip ;;
     ifR (isz "blk") (.set "err" (.k E.other))) ;;
   flag "currentBest.Hash != newBest.BlockHash()" "ro.fork" ;;
   .ite (nz "ro.fork") (
     .call "blocks above the new height" ["ro.n2"] [] ;;
     .loop "ro.j" "ro.n2" [.nz "rollbackBlock"] (
-      .invoke "masswallet/ntfnshandler.go:NtfnsHandler.disconnectBlock" ;;
+      .invoke Fn.disconnectBlock ;;
       ifR (nz "err") .skip ;;
       MA "rollbackBlock[currentBest.Height]" "rollbackBlock") ;;
     .call "w.syncStore.SyncedBlock" ["bm", "err"] [] ;;
@@ -2161,21 +2328,21 @@ def f_reorg : Stmt :=
       D "currentPrev" "Hash" ;;
       .call "walk-back rounds" ["ro.n3"] [] ;;
       .loop "ro.k" "ro.n3" [.nz "rollbackBlock", .nz "newTailBlock", .nz "currentPrev"] (
-        .invoke "masswallet/ntfnshandler.go:NtfnsHandler.disconnectBlock" ;;
+        .invoke Fn.disconnectBlock ;;
         ifR (nz "err") .skip ;;
         MA "rollbackBlock[currentPrev.Height+1]" "rollbackBlock" ;;
         .call "w.syncStore.SyncedBlock" ["currentPrev", "err"] [] ;;
         ifR (nz "err") .skip ;;
         ifR (isz "currentPrev") (.set "err" (.k E.other)) ;;
-        .invoke "masswallet/ntfnshandler.go:NtfnsHandler.getBlock" ;;
+        .invoke Fn.getBlock ;;
         ifR (nz "err") .skip ;;
         ifR (isz "blk") (.set "err" (.k E.other)) ;;
         .set "newTailBlock" (.v "blk")) ;;
       D "currentPrev" "Height" ;;
-      .invoke "masswallet/ntfnshandler.go:NtfnsHandler.disconnectBlock" ;;
+      .invoke Fn.disconnectBlock ;;
       ifR (nz "err") .skip ;;
       MA "rollbackBlock[currentPrev.Height+1]" "rollbackBlock") .skip) .skip ;;
-  .invoke "masswallet/ntfnshandler.go:NtfnsHandler.getReadyWallets" ;;
+  .invoke Fn.getReadyWallets ;;
   ifR (nz "err") .skip ;;
   .call "blocks to connect" ["ro.n4"] [] ;;
   .loop "ro.l" "ro.n4" [] (
@@ -2183,7 +2350,7 @@ def f_reorg : Stmt :=
     .call "blocksToConnect.Front()" ["front", "front.Value"] (always [.nz "front", .eqk "front.Value" 1]) ;;
     Dt "blocksToConnect.Front() .Value" "front" ;;
     .site "assert" "blocksToConnect.Front().Value.(*wire.MsgBlock)" (some (.eqk "front.Value" 1)) ;;
-    .invoke "masswallet/ntfnshandler.go:NtfnsHandler.filterBlock" ;;
+    .invoke Fn.filterBlock ;;
     ifR (nz "err") .skip) ;;
   .set "err" (.k 0)
 
@@ -2199,8 +2366,8 @@ def f_worker : Stmt :=
   .call "tasks until quit" ["wk.n"] [] ;;
   .loop "wk.i" "wk.n" [] (
     flag "task.taskType == WalletTaskImport" "wk.imp" ;;
-    .ite (nz "wk.imp") (.invoke "masswallet/ntfnshandler.go:NtfnsHandler.asyncImport")
-      (.invoke "masswallet/ntfnshandler.go:NtfnsHandler.asyncRemove"))
+    .ite (nz "wk.imp") (.invoke Fn.asyncImport)
+      (.invoke Fn.asyncRemove))
 
 def f_asyncImport : Stmt :=
   .call "w.ksmgr.GetAddrManagerByAccountID" ["addrmgr", "err"] (onOk "err" [.nz "addrmgr"]) ;;
@@ -2210,7 +2377,7 @@ def f_asyncImport : Stmt :=
   .loop "ai.i" "mas" [] (
     .call "range mas" ["ma"] (always [.nz "ma"]) ;;
     D "ma" "ScriptAddress") ;;
-  .invoke "masswallet/ntfnshandler.go:NtfnsHandler.suspend" ;;
+  .invoke Fn.suspend ;;
   ifR (isz "suspended") (.set "err" (.k E.other)) ;;
   .set "heightAdded" (.k 1) ;;
   .scope (
@@ -2241,7 +2408,7 @@ def f_asyncImport : Stmt :=
           .scope (
             .call "fetcher.FetchTxByLoc" ["msg", "err"] (onOk "err" [.nz "msg"]) ;;
             ifR (nz "err") (.set "ai.abort" (.k 1)) ;;
-            .invoke "masswallet/ntfnshandler.go:NtfnsHandler.filterTxForImporting" ;;
+            .invoke Fn.filterTxForImporting ;;
             ifR (nz "err") (.set "ai.abort" (.k 1)) ;;
             -- not relevant (only unsupported scripts of the wallet's addresses): skipped
             .ite (isz "rec") (D "msg" "TxHash" ;; .ret) .skip ;;
@@ -2257,7 +2424,7 @@ def f_asyncImport : Stmt :=
     .call "w.utxoStore.UpdateMinedBalances" ["err"] [] ;;
     ifR (nz "err") .skip ;;
     .call "w.syncStore.PutWalletStatus" ["err"] []) ;;
-  .invoke "masswallet/ntfnshandler.go:NtfnsHandler.resume" ;;
+  .invoke Fn.resume ;;
   ifR (nz "err") .skip ;;
   .call "len(heightAdded)" ["ai.n"] [] ;;
   -- h.expiredMempool is made by NewNtfnsHandler
@@ -2273,19 +2440,19 @@ def f_asyncImport : Stmt :=
 def f_asyncRemove : Stmt :=
   .call "w.ksmgr.GetAddrManagerByAccountID" ["am", "err"] [] ;;
   ifR (nz "err") (.set "err" (.k 0)) ;;
-  .invoke "masswallet/ntfnshandler.go:NtfnsHandler.suspend" ;;
+  .invoke Fn.suspend ;;
   ifR (isz "suspended") (.set "err" (.k E.other)) ;;
   .call "phase 1: unspent, addresses, histories, balance" ["err"] [] ;;
-  .invoke "masswallet/ntfnshandler.go:NtfnsHandler.resume" ;;
+  .invoke Fn.resume ;;
   ifR (nz "err") .skip ;;
   .call "phase 2 rounds" ["ar.n"] [] ;;
   .loop "ar.i" "ar.n" [] (
-    .invoke "masswallet/ntfnshandler.go:NtfnsHandler.suspend" ;;
+    .invoke Fn.suspend ;;
     ifR (isz "suspended") (.set "err" (.k E.other)) ;;
     .call "w.txStore.RemoveRelevantTx (+ DeleteWalletStatus, DeleteKeystore when finished)" ["err", "finish"] [] ;;
-    .invoke "masswallet/ntfnshandler.go:NtfnsHandler.resume" ;;
+    .invoke Fn.resume ;;
     ifR (nz "err") .skip ;;
-    .invoke "masswallet/ntfnshandler.go:NtfnsHandler.RemoveMempoolTx" ;;
+    .invoke Fn.RemoveMempoolTx ;;
     ifR (nz "finish") (.set "err" (.k 0))) ;;
   .set "err" (.k E.other)
 
@@ -2310,10 +2477,10 @@ def f_processConnectedBlock : Stmt :=
   .scope (
     flag "newBlock.Header.Previous == bestBlock.Hash" "pcb.ext" ;;
     .ite (nz "pcb.ext") (
-      .invoke "masswallet/ntfnshandler.go:NtfnsHandler.getReadyWallets" ;;
+      .invoke Fn.getReadyWallets ;;
       ifR (nz "err") .skip ;;
-      .invoke "masswallet/ntfnshandler.go:NtfnsHandler.filterBlock")
-    (.invoke "masswallet/ntfnshandler.go:NtfnsHandler.reorg")) ;;
+      .invoke Fn.filterBlock)
+    (.invoke Fn.reorg)) ;;
   .ite (isz "err") (
     -- h.mempool / h.expiredMempool are made by NewNtfnsHandler
     .call "h.mempool, h.expiredMempool" ["h.mempool", "h.expiredMempool"] (always [.nz "h.mempool", .nz "h.expiredMempool"]) ;;
@@ -2325,7 +2492,7 @@ def f_processConnectedBlock : Stmt :=
     .loop "pcb.k" "pcb.a" [.nz "h.mempool", .nz "h.expiredMempool"] (MA "h.expiredMempool[height]" "h.expiredMempool")) .skip
 
 def f_proccessReceivedTx : Stmt :=
-  .invoke "masswallet/wallet.go:WalletManager.ChainIndexerSyncedHeight" ;;
+  .invoke Fn.ChainIndexerSyncedHeight ;;
   -- a live node provides its SyncManager
   .call "h.walletMgr.server.SyncManager()" ["sm"] (always [.nz "sm"]) ;;
   Dt "h.walletMgr.server.SyncManager() .BestPeer" "sm" ;;
@@ -2334,14 +2501,14 @@ def f_proccessReceivedTx : Stmt :=
     D "bestPeer" "Height" ;;
     flag "bestPeer.Height > knownBestHeight" "prt.h" ;;
     .ite (nz "prt.h") (D "bestPeer" "Height") .skip) .skip ;;
-  .invoke "masswallet/wallet.go:WalletManager.SyncedTo" ;;
+  .invoke Fn.SyncedTo ;;
   flag "syncHeight < knownBestHeight-1" "prt.behind" ;;
   ifR (nz "prt.behind") (.set "err" (.k 0)) ;;
-  .scope (.invoke "masswallet/ntfnshandler.go:NtfnsHandler.getReadyWallets") ;;
+  .scope (.invoke Fn.getReadyWallets) ;;
   ifR (nz "err") .skip ;;
   .set "blockMeta" (.k 0) ;;
   .set "recInCurBlk" (.k 0) ;;
-  .invoke "masswallet/ntfnshandler.go:NtfnsHandler.filterTx"
+  .invoke Fn.filterTx
 
 def f_getBlock : Stmt := .call "w.chainFetcher.FetchBlockBySha" ["blk", "err"] []
 def f_OnBlockConnected : Stmt := .skip
@@ -2526,7 +2693,170 @@ def progs : List (String × Stmt) := [
   ("masswallet/wallet.go:WalletManager.Wallets", f_Wallets),
   ("masswallet/wallet.go:checkInit", f_checkInit)]
 
-def prog : Prog := fun f => (progs.find? (fun p => p.1 == f)).map (·.2)
+def prog : Prog := fun f => (progs[f]?).map (·.2)
+
+/-- the table position every `Fn` constant stands for -/
+def fnIndex : List (Nat × String) := [
+  (Fn.APIServer_RunGateway_api_server, "api/api_server.go:APIServer.RunGateway"),
+  (Fn.APIServer_Start_api_server, "api/api_server.go:APIServer.Start"),
+  (Fn.APIServer_Stop_api_server, "api/api_server.go:APIServer.Stop"),
+  (Fn.NewAPIServer_api_server, "api/api_server.go:NewAPIServer"),
+  (Fn.generateRPCKeyPair_api_server, "api/api_server.go:generateRPCKeyPair"),
+  (Fn.openRPCKeyPair_api_server, "api/api_server.go:openRPCKeyPair"),
+  (Fn.AutoCreateTransaction, "api/tx_service.go:APIServer.AutoCreateTransaction"),
+  (Fn.CheckPoolPkCoinbase, "api/tx_service.go:APIServer.CheckPoolPkCoinbase"),
+  (Fn.CheckTargetBinding, "api/tx_service.go:APIServer.CheckTargetBinding"),
+  (Fn.CreateBindingTransaction_api, "api/tx_service.go:APIServer.CreateBindingTransaction"),
+  (Fn.CreatePoolPkCoinbaseTransaction, "api/tx_service.go:APIServer.CreatePoolPkCoinbaseTransaction"),
+  (Fn.CreateRawTransaction_api, "api/tx_service.go:APIServer.CreateRawTransaction"),
+  (Fn.CreateStakingTransaction_api, "api/tx_service.go:APIServer.CreateStakingTransaction"),
+  (Fn.DecodeRawTransaction, "api/tx_service.go:APIServer.DecodeRawTransaction"),
+  (Fn.GetBindingHistory_api, "api/tx_service.go:APIServer.GetBindingHistory"),
+  (Fn.GetNetworkBinding, "api/tx_service.go:APIServer.GetNetworkBinding"),
+  (Fn.GetRawTransaction, "api/tx_service.go:APIServer.GetRawTransaction"),
+  (Fn.GetStakingHistory_api, "api/tx_service.go:APIServer.GetStakingHistory"),
+  (Fn.GetTransactionFee, "api/tx_service.go:APIServer.GetTransactionFee"),
+  (Fn.GetTxStatus, "api/tx_service.go:APIServer.GetTxStatus"),
+  (Fn.SendRawTransaction, "api/tx_service.go:APIServer.SendRawTransaction"),
+  (Fn.TxHistory, "api/tx_service.go:APIServer.TxHistory"),
+  (Fn.buildDecodeRawTxResponse, "api/tx_service.go:APIServer.buildDecodeRawTxResponse"),
+  (Fn.createTxRawResult, "api/tx_service.go:APIServer.createTxRawResult"),
+  (Fn.createVinList, "api/tx_service.go:APIServer.createVinList"),
+  (Fn.getStatus, "api/tx_service.go:APIServer.getStatus"),
+  (Fn.createVoutList, "api/tx_service.go:createVoutList"),
+  (Fn.getEstimateStakingAddress, "api/tx_service.go:getEstimateStakingAddress"),
+  (Fn.messageToHex_api, "api/tx_service.go:messageToHex"),
+  (Fn.mockBindingTarget, "api/tx_service.go:mockBindingTarget"),
+  (Fn.witnessToHex, "api/tx_service.go:witnessToHex"),
+  (Fn.AmountToString, "api/util.go:AmountToString"),
+  (Fn.StringToAmount, "api/util.go:StringToAmount"),
+  (Fn.checkAddressLen, "api/util.go:checkAddressLen"),
+  (Fn.checkFormatAmount, "api/util.go:checkFormatAmount"),
+  (Fn.checkLocktime, "api/util.go:checkLocktime"),
+  (Fn.checkMnemonicLen, "api/util.go:checkMnemonicLen"),
+  (Fn.checkNotEmpty, "api/util.go:checkNotEmpty"),
+  (Fn.checkParseAmount, "api/util.go:checkParseAmount"),
+  (Fn.checkPassLen, "api/util.go:checkPassLen"),
+  (Fn.checkRemarksLen, "api/util.go:checkRemarksLen"),
+  (Fn.checkTransactionIdLen, "api/util.go:checkTransactionIdLen"),
+  (Fn.checkTxFeeLimit, "api/util.go:checkTxFeeLimit"),
+  (Fn.checkWalletIdLen, "api/util.go:checkWalletIdLen"),
+  (Fn.checkWitnessAddress, "api/util.go:checkWitnessAddress"),
+  (Fn.convertResponseError, "api/util.go:convertResponseError"),
+  (Fn.extractAddressInfos, "api/util.go:extractAddressInfos"),
+  (Fn.isEmpty, "api/util.go:isEmpty"),
+  (Fn.parseBindingTarget, "api/util.go:parseBindingTarget"),
+  (Fn.CreateAddress, "api/wallet_service.go:APIServer.CreateAddress"),
+  (Fn.CreateWallet_api, "api/wallet_service.go:APIServer.CreateWallet"),
+  (Fn.ExportWallet_api, "api/wallet_service.go:APIServer.ExportWallet"),
+  (Fn.GetAddressBalance, "api/wallet_service.go:APIServer.GetAddressBalance"),
+  (Fn.GetAddresses_api, "api/wallet_service.go:APIServer.GetAddresses"),
+  (Fn.GetClientStatus, "api/wallet_service.go:APIServer.GetClientStatus"),
+  (Fn.GetUtxo_api, "api/wallet_service.go:APIServer.GetUtxo"),
+  (Fn.GetWalletBalance, "api/wallet_service.go:APIServer.GetWalletBalance"),
+  (Fn.GetWalletMnemonic, "api/wallet_service.go:APIServer.GetWalletMnemonic"),
+  (Fn.ImportMnemonic, "api/wallet_service.go:APIServer.ImportMnemonic"),
+  (Fn.ImportWallet_api, "api/wallet_service.go:APIServer.ImportWallet"),
+  (Fn.QuitClient, "api/wallet_service.go:APIServer.QuitClient"),
+  (Fn.RemoveWallet_api, "api/wallet_service.go:APIServer.RemoveWallet"),
+  (Fn.SignRawTransaction, "api/wallet_service.go:APIServer.SignRawTransaction"),
+  (Fn.UseWallet_api, "api/wallet_service.go:APIServer.UseWallet"),
+  (Fn.ValidateAddress, "api/wallet_service.go:APIServer.ValidateAddress"),
+  (Fn.Wallets_api, "api/wallet_service.go:APIServer.Wallets"),
+  (Fn.decodeHexStr, "api/wallet_service.go:decodeHexStr"),
+  (Fn.AmountToString_wm, "masswallet/common.go:AmountToString"),
+  (Fn.PayToWitnessV0Address, "masswallet/common.go:PayToWitnessV0Address"),
+  (Fn.addTxIn, "masswallet/common.go:WalletManager.addTxIn"),
+  (Fn.autoConstructTxInAndChangeTxOut, "masswallet/common.go:WalletManager.autoConstructTxInAndChangeTxOut"),
+  (Fn.existsMsgTx, "masswallet/common.go:WalletManager.existsMsgTx"),
+  (Fn.existsOutPoint, "masswallet/common.go:WalletManager.existsOutPoint"),
+  (Fn.existsUnminedTx, "masswallet/common.go:WalletManager.existsUnminedTx"),
+  (Fn.prepareFromAddresses, "masswallet/common.go:WalletManager.prepareFromAddresses"),
+  (Fn.amountToTxOut, "masswallet/common.go:amountToTxOut"),
+  (Fn.maybeSubtractFeeFromAmounts, "masswallet/common.go:maybeSubtractFeeFromAmounts"),
+  (Fn.NewNtfnsHandler, "masswallet/ntfnshandler.go:NewNtfnsHandler"),
+  (Fn.IsWorkerBusy, "masswallet/ntfnshandler.go:NtfnsHandler.IsWorkerBusy"),
+  (Fn.OnBlockConnected, "masswallet/ntfnshandler.go:NtfnsHandler.OnBlockConnected"),
+  (Fn.OnImportWallet, "masswallet/ntfnshandler.go:NtfnsHandler.OnImportWallet"),
+  (Fn.OnRemoveWallet, "masswallet/ntfnshandler.go:NtfnsHandler.OnRemoveWallet"),
+  (Fn.OnTransactionReceived, "masswallet/ntfnshandler.go:NtfnsHandler.OnTransactionReceived"),
+  (Fn.RemoveMempoolTx, "masswallet/ntfnshandler.go:NtfnsHandler.RemoveMempoolTx"),
+  (Fn.Start, "masswallet/ntfnshandler.go:NtfnsHandler.Start"),
+  (Fn.Stop, "masswallet/ntfnshandler.go:NtfnsHandler.Stop"),
+  (Fn.asyncImport, "masswallet/ntfnshandler.go:NtfnsHandler.asyncImport"),
+  (Fn.asyncRemove, "masswallet/ntfnshandler.go:NtfnsHandler.asyncRemove"),
+  (Fn.disconnectBlock, "masswallet/ntfnshandler.go:NtfnsHandler.disconnectBlock"),
+  (Fn.filterBlock, "masswallet/ntfnshandler.go:NtfnsHandler.filterBlock"),
+  (Fn.filterTx, "masswallet/ntfnshandler.go:NtfnsHandler.filterTx"),
+  (Fn.filterTxForImporting, "masswallet/ntfnshandler.go:NtfnsHandler.filterTxForImporting"),
+  (Fn.getBlock, "masswallet/ntfnshandler.go:NtfnsHandler.getBlock"),
+  (Fn.getReadyWallets, "masswallet/ntfnshandler.go:NtfnsHandler.getReadyWallets"),
+  (Fn.initTaskChan, "masswallet/ntfnshandler.go:NtfnsHandler.initTaskChan"),
+  (Fn.onRelevantBlockConnected, "masswallet/ntfnshandler.go:NtfnsHandler.onRelevantBlockConnected"),
+  (Fn.onRelevantTx, "masswallet/ntfnshandler.go:NtfnsHandler.onRelevantTx"),
+  (Fn.proccessReceivedTx, "masswallet/ntfnshandler.go:NtfnsHandler.proccessReceivedTx"),
+  (Fn.processConnectedBlock, "masswallet/ntfnshandler.go:NtfnsHandler.processConnectedBlock"),
+  (Fn.reorg, "masswallet/ntfnshandler.go:NtfnsHandler.reorg"),
+  (Fn.resume, "masswallet/ntfnshandler.go:NtfnsHandler.resume"),
+  (Fn.suspend, "masswallet/ntfnshandler.go:NtfnsHandler.suspend"),
+  (Fn.Recover, "masswallet/ntfnshandler.go:Recover"),
+  (Fn.handle, "masswallet/ntfnshandler.go:handle"),
+  (Fn.worker, "masswallet/ntfnshandler.go:worker"),
+  (Fn.EstimateBindingTxFee, "masswallet/tx.go:WalletManager.EstimateBindingTxFee"),
+  (Fn.EstimateManualTxFee, "masswallet/tx.go:WalletManager.EstimateManualTxFee"),
+  (Fn.EstimateStakingTxFee, "masswallet/tx.go:WalletManager.EstimateStakingTxFee"),
+  (Fn.EstimateTxFee, "masswallet/tx.go:WalletManager.EstimateTxFee"),
+  (Fn.GetTxHistory, "masswallet/tx.go:WalletManager.GetTxHistory"),
+  (Fn.SignHash, "masswallet/tx.go:WalletManager.SignHash"),
+  (Fn.constructTxIn, "masswallet/tx.go:WalletManager.constructTxIn"),
+  (Fn.constructTxOut, "masswallet/tx.go:WalletManager.constructTxOut"),
+  (Fn.estimateSignedSize, "masswallet/tx.go:WalletManager.estimateSignedSize"),
+  (Fn.findEligibleUtxos, "masswallet/tx.go:WalletManager.findEligibleUtxos"),
+  (Fn.getUtxos, "masswallet/tx.go:WalletManager.getUtxos"),
+  (Fn.getUtxosExcludeBindingAndStaking, "masswallet/tx.go:WalletManager.getUtxosExcludeBindingAndStaking"),
+  (Fn.signWitnessTx, "masswallet/tx.go:WalletManager.signWitnessTx"),
+  (Fn.constructStakingTxOut, "masswallet/tx.go:constructStakingTxOut"),
+  (Fn.messageToHex, "masswallet/tx.go:messageToHex"),
+  (Fn.optOutputs, "masswallet/tx.go:optOutputs"),
+  (Fn.selectRelatedTx, "masswallet/tx.go:selectRelatedTx"),
+  (Fn.NewWalletManager, "masswallet/wallet.go:NewWalletManager"),
+  (Fn.AddressBalance, "masswallet/wallet.go:WalletManager.AddressBalance"),
+  (Fn.AutoCreateRawTransaction, "masswallet/wallet.go:WalletManager.AutoCreateRawTransaction"),
+  (Fn.ChainIndexerSyncedHeight, "masswallet/wallet.go:WalletManager.ChainIndexerSyncedHeight"),
+  (Fn.ChangePrivPassphrase, "masswallet/wallet.go:WalletManager.ChangePrivPassphrase"),
+  (Fn.CheckReady, "masswallet/wallet.go:WalletManager.CheckReady"),
+  (Fn.ClearUsedUTXOMark, "masswallet/wallet.go:WalletManager.ClearUsedUTXOMark"),
+  (Fn.CloseDB, "masswallet/wallet.go:WalletManager.CloseDB"),
+  (Fn.CountAll, "masswallet/wallet.go:WalletManager.CountAll"),
+  (Fn.CreateBindingTransaction, "masswallet/wallet.go:WalletManager.CreateBindingTransaction"),
+  (Fn.CreateRawTransaction, "masswallet/wallet.go:WalletManager.CreateRawTransaction"),
+  (Fn.CreateStakingTransaction, "masswallet/wallet.go:WalletManager.CreateStakingTransaction"),
+  (Fn.CreateWallet, "masswallet/wallet.go:WalletManager.CreateWallet"),
+  (Fn.CurrentWallet, "masswallet/wallet.go:WalletManager.CurrentWallet"),
+  (Fn.ExportWallet, "masswallet/wallet.go:WalletManager.ExportWallet"),
+  (Fn.GetAddresses, "masswallet/wallet.go:WalletManager.GetAddresses"),
+  (Fn.GetAllAddressesWithPubkey, "masswallet/wallet.go:WalletManager.GetAllAddressesWithPubkey"),
+  (Fn.GetBindingHistory, "masswallet/wallet.go:WalletManager.GetBindingHistory"),
+  (Fn.GetMnemonic, "masswallet/wallet.go:WalletManager.GetMnemonic"),
+  (Fn.GetStakingHistory, "masswallet/wallet.go:WalletManager.GetStakingHistory"),
+  (Fn.GetUtxo, "masswallet/wallet.go:WalletManager.GetUtxo"),
+  (Fn.ImportWallet, "masswallet/wallet.go:WalletManager.ImportWallet"),
+  (Fn.ImportWalletWithMnemonic, "masswallet/wallet.go:WalletManager.ImportWalletWithMnemonic"),
+  (Fn.IsAddressInCurrent, "masswallet/wallet.go:WalletManager.IsAddressInCurrent"),
+  (Fn.MarkUsedUTXO, "masswallet/wallet.go:WalletManager.MarkUsedUTXO"),
+  (Fn.NewAddress, "masswallet/wallet.go:WalletManager.NewAddress"),
+  (Fn.RemoveWallet, "masswallet/wallet.go:WalletManager.RemoveWallet"),
+  (Fn.SignRawTx, "masswallet/wallet.go:WalletManager.SignRawTx"),
+  (Fn.Start_wm, "masswallet/wallet.go:WalletManager.Start"),
+  (Fn.Stop_wm, "masswallet/wallet.go:WalletManager.Stop"),
+  (Fn.SyncedTo, "masswallet/wallet.go:WalletManager.SyncedTo"),
+  (Fn.UTXOUsed, "masswallet/wallet.go:WalletManager.UTXOUsed"),
+  (Fn.UseWallet, "masswallet/wallet.go:WalletManager.UseWallet"),
+  (Fn.WalletBalance, "masswallet/wallet.go:WalletManager.WalletBalance"),
+  (Fn.Wallets, "masswallet/wallet.go:WalletManager.Wallets"),
+  (Fn.checkInit, "masswallet/wallet.go:checkInit")]
+
+def fnOf (key : String) : Option Nat := (fnIndex.find? (fun p => p.2 == key)).map (·.1)
 
 /-- the site table of the model -/
 def siteTable : List (String × List (String × String)) := progs.map (fun p => (p.1, sites p.2))
@@ -2556,10 +2886,110 @@ def roots : List String := [
   "masswallet/ntfnshandler.go:NewNtfnsHandler", "masswallet/wallet.go:WalletManager.Start", "masswallet/wallet.go:WalletManager.Stop",
   "masswallet/wallet.go:WalletManager.GetAllAddressesWithPubkey"]
 
+def rootIds : List Nat := roots.filterMap fnOf
+
 def handlerRoots : List String := roots.filter (fun r => r.startsWith "api/")
 def followerRoots : List String := roots.filter (fun r => !r.startsWith "api/")
 
 /-- fuel of the checker (depth of the deepest statement/call nesting, with slack) -/
 def checkFuel : Nat := 400
+
+/-- variables through which a function hands results to its caller (Go: return values and the fields of
+    returned records). On return from `invoke` the checker forgets what it learned about every other variable
+    the callee assigned – this only keeps the fact sets small, forgetting is always sound. -/
+def resultVars : List Var := List.map V [
+  "err", "out", "st.err", "ats.err", "sta.err", "cpa.err", "cfa.err", "cwa.err", "pbt.err", "ctf.err", "cal.err", "cwl.err",
+  "ctl.err", "cml.err", "cpl.err", "cne.err", "cl.err", "eai.err", "dh.err", "cvo.err", "cvi.err", "gs.err", "ctr.err", "bd.err",
+  "perr", "perr.notfound", "oerr", "witAddr", "target", "empty", "ready", "busy", "suspended", "cw.len", "info", "ws",
+  "senders", "mtx", "msgTx", "selections", "res", "ret", "result", "rec", "isRelevant", "blk", "prevTx", "block",
+  "prevTx.TxOut", "flags", "readyWallets", "histories", "decoded", "syncedTo", "utxos.sel"]
+
+def exports : Nat → List Var := fun _ => resultVars
+
+/-- variables through which a caller hands data to a function (Go: receiver state, parameters, and the
+    loop positions / selectors the oracle reads). A callee is checked from the caller's facts about these
+    (and the result variables) only. -/
+def paramVars : List Var := List.map V [
+  "inputs", "utxos", "vout", "am", "ks", "acct", "blockMeta", "recInCurBlk", "addrs", "witnessAddr", "tx.TxIn", "tx.TxOut",
+  "cur.in", "amt.sel", "addr.sel", "empty.sel", "pbt.sel", "in.Amounts", "in.Outputs", "in.Addresses", "amounts", "cache",
+  "rollbackBlock", "addedExpireMempool", "h.mempool", "h.expiredMempool", "msg", "tx", "block", "newTailBlock", "currentPrev"]
+
+def imports : Nat → List Var := fun _ => paramVars ++ resultVars
+
+/-- CLOSED functions: accepted by the checker from no assumptions at all (`closed_ok`, one proof per
+    function) and none of their callers relies on a fact they establish (callers only test the returned
+    error / flags). A call of a closed function is not re-checked at the call site. -/
+def closedFns : List Nat := [
+  Fn.AmountToString,
+  Fn.AmountToString_wm,
+  Fn.StringToAmount,
+  Fn.checkLocktime,
+  Fn.checkParseAmount,
+  Fn.checkFormatAmount,
+  Fn.checkWitnessAddress,
+  Fn.parseBindingTarget,
+  Fn.checkTxFeeLimit,
+  Fn.checkAddressLen,
+  Fn.checkWalletIdLen,
+  Fn.checkTransactionIdLen,
+  Fn.checkMnemonicLen,
+  Fn.checkPassLen,
+  Fn.checkRemarksLen,
+  Fn.extractAddressInfos,
+  Fn.decodeHexStr,
+  Fn.createVoutList,
+  Fn.createVinList,
+  Fn.getStatus,
+  Fn.createTxRawResult,
+  Fn.buildDecodeRawTxResponse,
+  Fn.CheckReady,
+  Fn.Wallets,
+  Fn.CreateWallet,
+  Fn.WalletBalance,
+  Fn.AddressBalance,
+  Fn.GetUtxo,
+  Fn.NewAddress,
+  Fn.GetAddresses,
+  Fn.AutoCreateRawTransaction,
+  Fn.CreateStakingTransaction,
+  Fn.CreateBindingTransaction,
+  Fn.SignRawTx,
+  Fn.GetStakingHistory,
+  Fn.GetBindingHistory,
+  Fn.SyncedTo,
+  Fn.IsAddressInCurrent,
+  Fn.CurrentWallet,
+  Fn.ChainIndexerSyncedHeight,
+  Fn.constructTxOut,
+  Fn.constructStakingTxOut,
+  Fn.estimateSignedSize,
+  Fn.findEligibleUtxos,
+  Fn.getUtxos,
+  Fn.getUtxosExcludeBindingAndStaking,
+  Fn.optOutputs,
+  Fn.EstimateManualTxFee,
+  Fn.GetTxHistory,
+  Fn.addTxIn,
+  Fn.autoConstructTxInAndChangeTxOut,
+  Fn.prepareFromAddresses,
+  Fn.maybeSubtractFeeFromAmounts,
+  Fn.PayToWitnessV0Address,
+  Fn.amountToTxOut,
+  Fn.onRelevantBlockConnected,
+  Fn.filterTxForImporting,
+  Fn.filterBlock,
+  Fn.disconnectBlock,
+  Fn.reorg,
+  Fn.getReadyWallets,
+  Fn.initTaskChan,
+  Fn.asyncImport,
+  Fn.asyncRemove,
+  Fn.processConnectedBlock,
+  Fn.proccessReceivedTx,
+  Fn.RemoveWallet,
+  Fn.ExportWallet,
+  Fn.GetMnemonic]
+
+def closed : Nat → Bool := fun f => closedFns.contains f
 
 end MW.Model.Api
